@@ -12,2537 +12,1173 @@ Definition show_fres (r : fres) : string :=
   end.
 Definition check (rs : list rune) : string := digest (show_fres (format_res rs)).
 Definition full (rs : list rune) : string := show_fres (format_res rs).
-Eval vm_compute in ("<<<M4431>>>" ++ check (runes_of_ascii "root packet
-	crc
-
-    {
-@calculatedFrom(
-    ""1""
-
-    )
-    f32
-x	, 
-@calculatedFrom( ""// no comment""
-    )  //x
-	string
-chars ,
-@calculatedFrom(
-""a\""b""
-	)
-	@rightPad(
-)
-	@tag(7
-    )	match A
-
-    as
-	matchKey {
-[ 42 ]
-: msg_type""x y"" :	lengthOf
-    ""a\\""
-
-: packetx/// triple
-,[	""`tick`"" , ""x y""
-	,""a\""b"" , 	 // packet A { u8 x, }
-    ""x y""
-    , 00
-
-    ,""it's""
-,
-
-    7	, """" ]
-:	Logon
-
-    }	// a // b
-
-  ,
-@lengthOf(falsey  ) 
-repeat
-
-falsey `u8 x,`,u8x
-
-{ int16 lengthOf
-    `u8 x,`	,
-
-    f32a 	 // " ++ [128512]%N ++ runes_of_ascii " emoji
-    packetx
-    , }
-,
-	lengthOf
-	@lengthOf(
-
-calculatedFrom
-
-    )
-    ,  @rightPad
-
-('0' )
-
-f32
-    f32a
-    ,  
-  //
-
-	// packet A { u8 x, }
-  	@calculatedFrom(
-	""" ++ [128512]%N ++ runes_of_ascii """ 
-)
-    tag
-    ,
-	// " ++ [27880; 37322]%N ++ runes_of_ascii "
-
-  //x
-
-	string  zchar `// not a comment` , }
-	MetaData 
-matchKey {} packet uint8x  {  
-      // a // b
-  	//x
-    repeat
-lengthOf 
-    // a // b
-// @lengthOf(
-{ u16 
-u128 //
-,
-
-    Pad, }  ,
-@tag(  4294967296
-    )	@calculatedFrom(	""x y""  ) @tag( 0
-	)char[	4294967296
-
-]
-options1 @calculatedFrom(
-""CRC32""
-
-    ) 
-, @rightPad
-
-    (
-	'\x00'
-)
-    repeat 
-string
-	asx
-`a\`	// " ++ [128512]%N ++ runes_of_ascii " emoji
-
-,	@calculatedFrom(
-""" ++ [128512]%N ++ runes_of_ascii """ )
-char[
-    255
-    ]
-    len@calculatedFrom(
-
-    """ ++ [233]%N ++ runes_of_ascii "t" ++ [233]%N ++ runes_of_ascii """
-	) , @calculatedFrom( 	 //x
-    ""{,}""	)repeat
-
-zchar	calculatedFrom
-,
-@calculatedFrom(  """ ++ [233]%N ++ runes_of_ascii "t" ++ [233]%N ++ runes_of_ascii """  )  string
-
-o  @lengthOf(
-
-u
-
-    )
-	, uint64 falsey 
-// " ++ [128512]%N ++ runes_of_ascii " emoji
-@calculatedFrom( ""\" ++ [233]%N ++ runes_of_ascii """
-)
-
-    ,	zchar[	65535 ] 
-stringy @calculatedFrom(
-
-    ""1""
-) 
-,
-
-As 
-, }	packet
-    BodyLength {
-repeat
-
-    uint32
-body
-,zchar[
-65535 ]
-//	t
-    Header  ,
-As i8i8
-`tab	here` ,  @calculatedFrom( """ ++ [128512]%N ++ runes_of_ascii """
-)
-@rightPad(  // trailing space 
-  '0' )@tag( 
-65535)Pad	{ string
-u128,} 
-,
-
-@tag( 255  )
-@leftPad (
-    ) 
-@lengthOf( f32a
-
-)	repeat  o
-,repeat
-
-    i8i8	{ repeat
-	f32a  /// triple
-  float
-
-`line1
-line2` ,repeat
-char[ 0123456789 ]pack 
-`tab	here` ,	// `tick` ""quote"" 'q'
-    char[]
-	x	, 
-} 
-,
-
-@calculatedFrom(
-""""
-    )
-    @lengthOf( lengthOf
-) repeat	char[
-65535
-]	Foo
-    ,
-	pack lengthOf ,
-repeat
-
-    Pad ,} packet  // " ++ [128512]%N ++ runes_of_ascii " emoji
-  u8x
-	{  
-  //
-  @tag(	// `tick` ""quote"" 'q'
-255
-
-) repeat
-zchar[// trailing space 
-
-  4294967296]
-    pack
-    , 	 // " ++ [128512]%N ++ runes_of_ascii " emoji
-
-  char[
-
-0123456789
-	]	charz	// trailing space 
-	@calculatedFrom( 	 //x
-    ""a\""b""
-
-    )	// packet A { u8 x, }
-    ,
-//
-		@lengthOf(Header )  
-  // c
-	//x
-  f32a {u128 @calculatedFrom(  """" 
-    // " ++ [128512]%N ++ runes_of_ascii " emoji
-
-  ) `line1
-line2`
-	,
-T
-	@calculatedFrom(
-
-    ""a\""b""
-	),
-int32
-
-lengthOf
-	@lengthOf(
-	msg_type
-)
-,Foo@calculatedFrom(""a\""b"" ),} 
-,} ")).
-Eval vm_compute in ("<<<M3990>>>" ++ check (runes_of_ascii "packet u128 {
-    @calculatedFrom(""" ++ [28040; 24687]%N ++ runes_of_ascii """)
-    stringy {
-        match falsey as Z9_ {
-            // @lengthOf(
-            ""packet"" : float,
-        },
-        match uint8x as x_y_z {
-            3 : i64_,
-            //
-            // " ++ [128512]%N ++ runes_of_ascii " emoji
-            ""CRC32"" : float,
-            007 : falsey,
-            0123456789 : Packet,
-            [""it's"", ""\" ++ [233]%N ++ runes_of_ascii """] : calculatedFrom,
-        },
-        uint16 uint8x `it's`,
-        repeat i8 repeatCount,
-    },
-    u8 string_,
-    // trailing space 
-    @lengthOf(body)
-    @rightPad('\x00')
-    zchar[65535] trueish @calculatedFrom(""`tick`""),
-    @rightPad()
-    charz @lengthOf(A),
-    MetaDataX,
-    @tag(3)
-    char[3] x `doc`,
-    repeat i8i8 {
-        string Z9_,
-    },
-}// @lengthOf(
-
-root packet chars {
-    string_,
-    u16 trueish `
-        `,
-    float32 Pad @lengthOf(metadata) `" ++ [28040; 24687; 31867; 22411]%N ++ runes_of_ascii "`,
-    repeatCount,
-    @lengthOf(x)
-    char[] uint8x @lengthOf(T) `tab	here`,
-    A {
-        char rootA `
-                `,
-        int64 f32a,
-        Packet {
-            repeat i16 Foo `it's`,/// triple
-            zchar[65535] stringy @calculatedFrom(""1"") `
-                        `,// trailing space 
-        },
-        int,
-    },// trailing space 
-    charz metadata,
-    @calculatedFrom(""\" ++ [233]%N ++ runes_of_ascii """)
-    match o as matchKey {
-        ""abc"" : zchar,
-        // " ++ [27880; 37322]%N ++ runes_of_ascii "
-        ""CRC32"" : As,
-        // packet A { u8 x, }
-        ""packet"" : Packet,
-        ""x y"" : pack,
-        [
-            0, 10, 00, ""\n"", 65535,
-            ""1""
-        ] : As,
-    },//
-}
-
-options {
-}
-
-packet leftPad {
-    @calculatedFrom(""a\\"")
-    @lengthOf(len)
-    @tag(1)
-    char[255] u8x,
-    @calculatedFrom(""// no comment"")
-    int32 len @lengthOf(_x),
-    @calculatedFrom(""" ++ [28040; 24687]%N ++ runes_of_ascii """)
-    repeat Logon int `" ++ [28040; 24687; 31867; 22411]%N ++ runes_of_ascii "`,
-    match As as packetx {
-        ""a	b"" : uint8x,
-        // a // b
-    },
-    char[0] charz @lengthOf(i8i8),
-    chars metadata,
-    @tag(0123456789)
-    //
-    // trailing space 
-    BodyLength,
-}")).
-Eval vm_compute in ("<<<M4105>>>" ++ check (runes_of_ascii "
-options { _x
-
-=
-	float32
-
-; 
-}  packet 
-Packet {
-	char[
-    255	]
-	tag @lengthOf( a1 ) , match
-
-Packet
-    as
-lengthOf {
-
-[
-
-    ""x y"",
-
-1	]:
-
-metadata
-,
-    [	""x y""
-	, 	 // @lengthOf(
-    	0 	 //x
-		]:  // `tick` ""quote"" 'q'
-
-  metadata }, @lengthOf(
-
-rootA
-
-    )	Header
-matchKey
-    , @lengthOf(
-
-    leftPad
-)char[]
-
-A `" ++ [233]%N ++ runes_of_ascii "` ,}
-    packet
-	Logon
-{
-
-    zchar[
-
-1
-]// c
-    f32a
-    `{ , }`
-
-    ,
-	i64_
-
-    @calculatedFrom(""" ++ [28040; 24687]%N ++ runes_of_ascii """
-
-)
-
-    , 
-@calculatedFrom( """ ++ [128512]%N ++ runes_of_ascii """
-)  @lengthOf( T 
-)
-uint16 T
-	@calculatedFrom( 
-""CRC32""//
-  )
-    // packet A { u8 x, }
-	, @tag(
-
-65535
-)// trailing space 
-	@lengthOf(	body)
-i8 o
-@lengthOf(// packet A { u8 x, }
-  MetaDataX
-
-    )// `tick` ""quote"" 'q'
-	`it's`
-
-,
-match
-int as falsey  {  [	""// no comment"" , 255 
-      /// triple
-//	t
-
-	]	:  MetaDataX , } 
-,
-	}
-root
-
-    packet 
-msg_type { @calculatedFrom( ""packet""
-
-    )
-    MetaDataX
-f32a `" ++ [233]%N ++ runes_of_ascii "`
-,@calculatedFrom( ""// no comment"")	//
-    repeat	asx
-	u128 ,
-match 
-msg_type
-as
-
-u8x  { 
-255
-
-:
-	T ,	[7] : metadata
-
-    ,
-    },
-@lengthOf(
-body )
-
-leftPad
-
-@calculatedFrom(	""it's"")	,
-	@leftPad  ( ) metadata msg_type
-`crlf
-line`
-,	@tag( 255
-
-    )repeat  char[
-	00]
-rootA	// @lengthOf(
-    ,	match// " ++ [27880; 37322]%N ++ runes_of_ascii "
-
-f32a
-	as	charz	{ ""a	b""
-:  Header },@lengthOf(
-options1  // `tick` ""quote"" 'q'
-)
-char[]repeatCount	`u8 x,` // @lengthOf(
-    	,
-	@lengthOf( o 
-    // " ++ [128512]%N ++ runes_of_ascii " emoji
-	// c
-)float64
-
-crc 
-      // " ++ [128512]%N ++ runes_of_ascii " emoji
-  	// packet A { u8 x, }
-
-	@lengthOf(falsey 	 // `tick` ""quote"" 'q'
-      ) ,
-
-}packet
-
-_x	{
-repeat
-	i64_
-// c
-  {
-repeat
-A {  x_y_z
-
-{
-char[ 1
-// c
-// @lengthOf(
-	] Logon  ,
-    }	,	/// triple
-	  }	,
-	}
-    ,
-} 	 //	t")).
-Eval vm_compute in ("<<<M731>>>" ++ check (runes_of_ascii "options
-    { _x =
-    float32
-    ;} packet Packet
-{char[ 255
-]	tag @lengthOf(
-    a1)
-    ,match Packet as lengthOf { [ ""x y"" ,	1
-    ] :metadata,
-[""x y""
-,// @lengthOf(
-0//x
-]  : // `tick` ""quote"" 'q'
-metadata  },@lengthOf(rootA
-) Header matchKey
-, @lengthOf(leftPad)  char[] A `" ++ [233]%N ++ runes_of_ascii "`
-,
-} packet Logon{zchar[1 ]// c
-f32a `{ , }` , i64_ @calculatedFrom( """ ++ [28040; 24687]%N ++ runes_of_ascii """)
-    , @calculatedFrom( """ ++ [128512]%N ++ runes_of_ascii """) @lengthOf( T ) uint16 T
-    @calculatedFrom( ""CRC32""//
-)
-    // packet A { u8 x, }
-    , @tag( 65535 )// trailing space 
-@lengthOf( body ) i8 o @lengthOf(// packet A { u8 x, }
-MetaDataX ) // `tick` ""quote"" 'q'
-`it's` ,match
-    int as falsey {  [ ""// no comment""	,
-255
-/// triple
-//	t
-] :
-MetaDataX , }
-    , }
-root packet msg_type  {	@calculatedFrom(""packet"") MetaDataX f32a `" ++ [233]%N ++ runes_of_ascii "`
-,@calculatedFrom( ""// no comment""
-    ) //
-repeat
-asx u128
-,match
-msg_type as u8x
-    { 255	: T , [ 7 ]
-:metadata , } ,
-@lengthOf( body ) leftPad @calculatedFrom( ""it's"")  ,@leftPad	()metadata msg_type  `crlf
-line` , @tag(
-255 )repeat
-    char[ 00 ] rootA // @lengthOf(
-, match // " ++ [27880; 37322]%N ++ runes_of_ascii "
-f32a as charz{  ""a	b"" : Header } , @lengthOf( options1// `tick` ""quote"" 'q'
-)char[]
-repeatCount  `u8 x,` // @lengthOf(
-,	@lengthOf( o
-// " ++ [128512]%N ++ runes_of_ascii " emoji
-// c
-) float64 crc
-// " ++ [128512]%N ++ runes_of_ascii " emoji
-// packet A { u8 x, }
-@lengthOf( falsey // `tick` ""quote"" 'q'
-)
-,
-} packet	_x {	repeat i64_
-    // c
-    { repeat A{ x_y_z { char[ 1
-// c
-// @lengthOf(
-]Logon
-, } , /// triple
-} , } , } //	t")).
-Eval vm_compute in ("<<<M374>>>" ++ check (runes_of_ascii "packet BodyLength// packet A { u8 x, }
-{ leftPad lengthOf ,	float rootA `it's`	, @leftPad (
-    '0' ) repeat
-    BodyLength ,@rightPad
-(
-    ) i16// a // b
-falsey @lengthOf(// a // b
-i64_ ) , // `tick` ""quote"" 'q'
-repeat
-char[ 0123456789 ]uint8x , repeat
-    // " ++ [27880; 37322]%N ++ runes_of_ascii "
-    f64 i64_,	a1 tag`" ++ [233]%N ++ runes_of_ascii "` ,char[ 10 ]packetx
-`say ""hi""`
-,
-    repeat  tag metadata
-`tab	here` , }
-    /// triple
-    options {
-crc = """"
-    ;
-}
-    packet int
-{ repeat zchar[	255
-    ]	i64_ `two words`//x
-,
-    string tag@lengthOf( // a // b
-Header )
-,char chars ,
-@lengthOf(
-    crc ) match asx as Foo{ 7  : BodyLength , ""packet"" : Z9_
-,007 :
-    matchKey ,} ,
-uint16 metadata// a // b
-,
-i64_ {	repeat
-u8
-msg_type, stringy {char[ 0123456789 ] // c
-o @calculatedFrom(
-""\n"" ) `" ++ [233]%N ++ runes_of_ascii "` ,}
-/// triple
-// packet A { u8 x, }
-, zchar[
-00]
-    stringy	`line1
-line2`
-, } ,
-@leftPad//
-('0') match uint8x as u128 {
-[ 1 // a // b
-, ""abc"" ]
-    : _x  ""a	b"" :Packet
-    // c
-    3 : _x //	t
-, ""`tick`"" :
-packetx ,
-""\n""
-: Header ,  } ,
-x
-    // c
-    @calculatedFrom(
-    /// triple
-    ""\n"" ) ,zchar[ 65535 ]
-    Packet//x
-,
-} MetaData Logon{
-    } packet packetx {
-@calculatedFrom( ""a\\"" )
-match roots as Foo { [""\n"", 4294967296 ] : asx ,00
-:  o , ""{,}"" :Header ,255 : packetx , [255,4294967296	] :MetaDataX
-    ,  } , }")).
-Eval vm_compute in ("<<<M1387>>>" ++ check (runes_of_ascii "options{ falsey =
-float64 ;
-u8x
-=' ' ; charz = '0' ; // a // b
-} options/// triple
-{ i8i8 = true ;	uint8x = false ; roots
-//	t
-// " ++ [27880; 37322]%N ++ runes_of_ascii "
-=
-// @lengthOf(
-// c
-42 ; MetaDataX= ""a\\""
-} packet tag { lengthOf//
-, @lengthOf(
-    // a // b
-    u8x)
-    match// " ++ [27880; 37322]%N ++ runes_of_ascii "
-metadata as packetx { ""// no comment""
-:
-    // `tick` ""quote"" 'q'
-    tag // " ++ [128512]%N ++ runes_of_ascii " emoji
-,65535
-: MetaDataX
-    // " ++ [128512]%N ++ runes_of_ascii " emoji
-    ,	} ,@rightPad(' '
-)  char[ 007 // c
-] // " ++ [128512]%N ++ runes_of_ascii " emoji
-len, @calculatedFrom(
-    ""a	b""
-) repeat//x
-uint8x u8x `a\`
-, repeat
-uint8x	{ match  MetaDataX as zchar  { 65535 : int
-, 1
-    :
-    matchKey  , [ 0123456789]
-:pack, 7: Z9_ , 0123456789
-:	rootA/// triple
-[ 00
-    ,""\n"" ] :leftPad , }  , u128  { // a // b
-uint64 i8i8 // packet A { u8 x, }
-, i32 tag	, uint8 body	,}  , zchar[255 ] rootA	, } // trailing space 
-, // trailing space 
-string roots , @calculatedFrom(
-""CRC32"" ) @tag( 7 ) string_	@calculatedFrom(  ""abc"" )
-, zchar[ 10 ] int `say ""hi""` , @lengthOf(  metadata )	char[ 0 ] roots @calculatedFrom( """" ) // `tick` ""quote"" 'q'
-, @calculatedFrom(""x y""//x
-) rootA `" ++ [28040; 24687; 31867; 22411]%N ++ runes_of_ascii "` , }
-root packet // " ++ [128512]%N ++ runes_of_ascii " emoji
-i64_ {@tag( 00 )
-repeat x i64_ , } options { Header
-    =00 float =	false
-    ;}
-")).
-Eval vm_compute in ("<<<M414>>>" ++ check (runes_of_ascii "packet Packet
-{ Logon @lengthOf(chars ) , @lengthOf(  stringy
-    // c
-    ) int { // a // b
-char[ 1 ]
-    rootA,
-    repeat repeatCount `it's`
-    , i8 calculatedFrom
-    ,	} ,
-    _x
-u128,
-    //	t
-    i16 uint8x @lengthOf( a1 )	, a1@calculatedFrom( """ ++ [233]%N ++ runes_of_ascii "t" ++ [233]%N ++ runes_of_ascii """ ) , @lengthOf(
-x
-// `tick` ""quote"" 'q'
-// packet A { u8 x, }
-)	repeat
-    x_y_z{
-int32 crc @calculatedFrom( ""packet"" ), repeat string Z9_
-    , float64 len ,} , repeat
-options1`" ++ [28040; 24687; 31867; 22411]%N ++ runes_of_ascii "`
-,
-// a // b
-// " ++ [128512]%N ++ runes_of_ascii " emoji
-@leftPad  (' ' ) string // @lengthOf(
-msg_type @calculatedFrom(
-    ""a	b"" ) , // trailing space 
-repeat uint8
-trueish`line1
-line2` , } options // `tick` ""quote"" 'q'
-{
-    body	= ""\" ++ [233]%N ++ runes_of_ascii """ } packet pack// @lengthOf(
-{ /// triple
-@lengthOf(	matchKey )char[3 ] a1
-    ,
-@leftPad
-( ) @calculatedFrom( ""it's""
-) repeat f32a { zchar[ 00 ]
-lengthOf ,
-    stringy u8x ,
-As// trailing space 
-{  A//x
-@calculatedFrom(	""abc"" ), match
-u8x as	crc	{
-65535:
-trueish ,
-""a	b"" :
-    matchKey
-    // " ++ [128512]%N ++ runes_of_ascii " emoji
-    } , }
-, trueish // a // b
-@calculatedFrom( /// triple
-""\n"" // trailing space 
-) `say ""hi""`
-    , } , }
-packet stringy {char[ 4294967296 ]
-u8x
-, }
-")).
-Eval vm_compute in ("<<<M3701>>>" ++ check (runes_of_ascii "// @lengthOf(
-packet BodyLength {
-    char T,
-}
-
-root packet A {
-    repeat len `say ""hi""`,
-    repeat Pad {
-        repeat char[] stringy,
-        repeat rootA {
-            uint64 Foo @lengthOf(options1) `it's`,
-            //x
-            /// triple
-            zchar {
-                zchar[42] Z9_,
-                repeat o i8i8,
-                uint8 x `it's`,
-                rootA Foo `{ , }`,
-            },
-        },
-        metadata @calculatedFrom(""a	b""),
-    },
-    @tag(1)
-    string u `doc`,
-    u @calculatedFrom(""it's"") ``,
-    char[7] packetx @lengthOf(A) `{ , }`,
-    string _x `
-    `,
-    float32 _x,
-    repeat char[42] rootA `doc`,
-}
-
-MetaData matchKey {
-    zchar[0123456789] falsey ``,
-}
-
-packet Logon {
-    @lengthOf(zchar)
-    match leftPad as falsey {
-        3 : Packet,
-        007 : zchar,
-        1 : float,
-        ""it's"" : body,
-        ""CRC32"" : body,
-    },
-    @calculatedFrom(""{,}"")
-    zchar[1] i8i8 @lengthOf(uint8x),
-    zchar[00] a1,
-    uint64 u,
-    string Packet @calculatedFrom(""packet""),
-}")).
-Eval vm_compute in ("<<<M841>>>" ++ check (runes_of_ascii "options
-{ } packet Foo { string Header `doc` ,
-    char[7] leftPad
-    , match i64_ as o { 10 //x
-: // `tick` ""quote"" 'q'
-x	,[""x y"" ] : repeatCount // c
-,
-0123456789 //	t
-:
-// @lengthOf(
-// `tick` ""quote"" 'q'
-roots ,
-    [0 ,
-7
-    ,00 ,
-""" ++ [233]%N ++ runes_of_ascii "t" ++ [233]%N ++ runes_of_ascii """
-,00 ,/// triple
-10
-, ""packet"" ] :  stringy ,
-    /// triple
-    [ 0123456789,
-""{,}"" , """" , ""a	b"" ,""a\\"" , ""\n"" , 4294967296,1	] :  BodyLength, /// triple
-4294967296: float , },
-packetx`
-`, zchar[  7 ] Foo ,  Logon ,
-match o as calculatedFrom {3: uint8x
-    //
-    }
-    , rootA repeatCount	, }
-    root
-packet f32a{@lengthOf(
-float  ) crc
-    `u8 x,`//
-, @calculatedFrom(
-""{,}"") repeat zchar[
-3
-    ]Header `` ,match len as pack { [ ""{,}"" , ""a\\""  ] :uint8x , [""packet"" , 42 ,""\n"", 4294967296// c
-,  ""CRC32"" ,
-    // `tick` ""quote"" 'q'
-    007	]
-    :Foo , """ ++ [233]%N ++ runes_of_ascii "t" ++ [233]%N ++ runes_of_ascii """
-    // packet A { u8 x, }
-    : BodyLength , 0123456789: crc , }
-    , x As
-`u8 x,`
-,float64 Pad @lengthOf( repeatCount) ,	char[
-00] Logon @lengthOf( tag )	,
-    }")).
-Eval vm_compute in ("<<<M1304>>>" ++ check (runes_of_ascii "
-packet matchKey //	t
-{ @leftPad
-(
-    ) // a // b
-calculatedFrom	,@lengthOf( msg_type
-    // `tick` ""quote"" 'q'
-    )	repeat x_y_z `doc`  , uint8 o //
-@lengthOf( leftPad )`" ++ [28040; 24687; 31867; 22411]%N ++ runes_of_ascii "` , repeat x_y_z
-{match
-    u8x	as i8i8 {
-""a\""b"" : lengthOf ,
-    [
-3
-    ,
-""a\""b""
-, 65535
-,00 ,
-    10 , ""1"" ]//x
-:
-// trailing space 
-// c
-roots,
-3:  crc
-    ,
-    [ """ ++ [28040; 24687]%N ++ runes_of_ascii """,3 // a // b
-] //	t
-:	msg_type , [ """ ++ [128512]%N ++ runes_of_ascii """	] : Packet , 4294967296 :
-    matchKey
-    // " ++ [128512]%N ++ runes_of_ascii " emoji
-    }, match A // a // b
-as u8x
-{
-3 : Packet 1  : Pad ,
-// " ++ [128512]%N ++ runes_of_ascii " emoji
-// trailing space 
-""1""
-    :
-//	t
-// " ++ [27880; 37322]%N ++ runes_of_ascii "
-options1 , }
-,asx
-    { o `// not a comment`
-    , repeat
-    rootA `// not a comment` ,
-    i8i8 @lengthOf(stringy ) `" ++ [28040; 24687; 31867; 22411]%N ++ runes_of_ascii "`
-    , zchar[
-    // trailing space 
-    3] options1 @calculatedFrom(""x y"" ) ,},
-} ,
-}  packet
-    // " ++ [128512]%N ++ runes_of_ascii " emoji
-    A { @calculatedFrom( """" ) @tag(0123456789 )f32a packetx `say ""hi""`,
-    repeat
-    x  uint8x ,}  options {} // trailing space ")).
-Eval vm_compute in ("<<<M429>>>" ++ check (runes_of_ascii "packet options1 {repeat
-u128 { repeat	Z9_//
-, Packet { falsey {match len // @lengthOf(
-as //x
-roots// packet A { u8 x, }
-{
-255 :
-    msg_type , 10 :
-string_ 0 : int
-//x
-// `tick` ""quote"" 'q'
-, }
-,// c
-int16 Packet @lengthOf( // packet A { u8 x, }
-f32a	)  ,  match lengthOf as //
-leftPad {[ 00
-,
-    ""abc"" ]: charz ,} , repeat zchar[42 ]
-Header `{ , }`,	}
-//
-// a // b
-, }
-//x
-// c
-,
-    // `tick` ""quote"" 'q'
-    repeat u {
-tag
-//	t
-// @lengthOf(
-{ /// triple
-char[ 0] rootA
-    @lengthOf( i8i8 )
-, } , zchar[007]charz
-    `two words` , }
-    , } ,zchar[ 3 ]
-u128
-    @lengthOf( falsey
-) , repeat string x // trailing space 
-,// packet A { u8 x, }
-repeat Foo _x `u8 x,` , match
-roots as
-Packet	{
-    ""1"" :// a // b
-falsey , } ,
-@lengthOf(
-uint8x
-//x
-// " ++ [128512]%N ++ runes_of_ascii " emoji
-) // packet A { u8 x, }
-@lengthOf(  lengthOf )@lengthOf( f32a )zchar[ 255 ] T `two words` ,f32a T ,
-}")).
-Eval vm_compute in ("<<<M644>>>" ++ check (runes_of_ascii "packet
-falsey { uint64 calculatedFrom@lengthOf(//	t
-msg_type )
-/// triple
-//	t
-, i16
-    zchar , f32	a1 ,
-    // " ++ [27880; 37322]%N ++ runes_of_ascii "
-    @calculatedFrom(
-""// no comment"")a1 /// triple
-`say ""hi""`,
-As
-// " ++ [128512]%N ++ runes_of_ascii " emoji
-//x
-Z9_ ,
-    // packet A { u8 x, }
-    repeatCount @lengthOf(uint8x ) , u8 o @calculatedFrom(	""`tick`"")`say ""hi""`
-,
-f32
-    A @lengthOf(
-    //
-    packetx
-    // `tick` ""quote"" 'q'
-    )`line1
-line2` ,}	MetaData len
-    {As rootA
-, zchar[ 10
-]
-BodyLength `it's` ,
-int32	crc
-`
-` ,
-zchar
-u8x
-, leftPad BodyLength ,
-} MetaData zchar
-{options1 calculatedFrom, zchar[ 7  ]trueish
-    // c
-    , } // " ++ [27880; 37322]%N ++ runes_of_ascii "
-root
-    packet Foo { @lengthOf( i8i8 )	repeat	zchar[  255 ] u `// not a comment`
-,} MetaData // " ++ [27880; 37322]%N ++ runes_of_ascii "
-int
-    /// triple
-    { uint16 matchKey  , int16 // `tick` ""quote"" 'q'
-x_y_z//
-`say ""hi""` ,
-leftPad Logon ,}
-")).
-Eval vm_compute in ("<<<M1296>>>" ++ check (runes_of_ascii "packet
-    body { @tag(255 ) int @lengthOf( matchKey
-    ) `tab	here` ,
-}
-    packet Z9_ { @lengthOf( As
-)
-    repeat _x
-lengthOf ,	@tag( 0123456789
-    ) repeat
-uint8x ,int64  stringy@calculatedFrom(
-    ""{,}"" )`crlf
-line`
-, //x
-@lengthOf(	i8i8)@tag( 4294967296	) @rightPad ( // c
-'0' // `tick` ""quote"" 'q'
-) char[
-    // c
-    3]
-int , } packet roots { } root
-packet body { match f32a as  u8x{//x
-""\" ++ [233]%N ++ runes_of_ascii """ //x
-:	chars, } , @tag(255 )
-@tag( 00) trueish
-Header, @tag( //x
-1)
-match
-A
-    as falsey { [""a\""b"" ]: i64_ ,// trailing space 
-[ 7 ,""packet"" , ""{,}""
-, 4294967296 , 007] :u128 , 0
-:
-string_ , 007 : x
-    , 1 :As ,
-    }
-    , @lengthOf(
-    options1 ) repeat u16  Header
-`` ,string trueish
-, // " ++ [128512]%N ++ runes_of_ascii " emoji
-@lengthOf( len ) x repeatCount
-    `crlf
-line` ,
-    }
-")).
-Eval vm_compute in ("<<<M1086>>>" ++ check (runes_of_ascii "packet
-u128 {
-    @tag( 0 ) BodyLength { Z9_ {  stringy {	metadata
-// @lengthOf(
-// a // b
-, } ,	zchar @lengthOf(
-x_y_z)
-, match	lengthOf
-as
-    float{ 10 : repeatCount,
-}
-    , repeat
-string Pad `" ++ [233]%N ++ runes_of_ascii "` , } , // packet A { u8 x, }
-u64
-u128 @calculatedFrom( ""a\""b""
-    ) ,} ,@rightPad
-(	'0') uint32
-    x_y_z@lengthOf(crc ) ,
-    match tag	as
-roots {
-    4294967296 : packetx , 007
-    :
-    Packet
-,// packet A { u8 x, }
-[ """ ++ [128512]%N ++ runes_of_ascii """
-,	7
-// trailing space 
-//
-, 255 // " ++ [27880; 37322]%N ++ runes_of_ascii "
-, ""a	b""
-]
-: x_y_z
-,
-3	:
-    //	t
-    u128,
-""a	b"" : u128,}  , Foo
-@lengthOf( o ), i32 int
-    , options1 ,	@rightPad(
-    ) @rightPad (  '\x00' )
-x
-`crlf
-line` , @tag(
-255
-)  int16 u8x@lengthOf(trueish)  `" ++ [28040; 24687; 31867; 22411]%N ++ runes_of_ascii "` ,
-f64 leftPad @calculatedFrom( ""CRC32"" ) `doc`,
-    }")).
-Eval vm_compute in ("<<<M734>>>" ++ check (runes_of_ascii "options {
-    } packet x {	MetaDataX @lengthOf( _x // @lengthOf(
-),
-    // " ++ [128512]%N ++ runes_of_ascii " emoji
-    }
-root
-    packet metadata{ string float``
-,char[ 65535 ]  T `it's`, @lengthOf( msg_type) @tag(42 )
-match Header as
-    chars  { [
-10,
-    7
-]:
-a1 ,
-    [//x
-""1""
-// c
-//
-] : u128 4294967296
-    : options1 , } , // trailing space 
-int	@calculatedFrom( ""`tick`""
-    ) ,
-    MetaDataX
-// `tick` ""quote"" 'q'
-// c
-packetx , zchar[ 10] o, @tag( 007)
-    u128 Pad , @calculatedFrom( ""{,}""
-    //	t
-    )
-    // `tick` ""quote"" 'q'
-    match options1 as BodyLength{ [00	, 255 , ""x y""
-]	:
-A ""a\\"" :T ,[ 7	,
-    42 ,65535, ""a\""b""
-, 7
-    , 007 , //	t
-""`tick`""  , 0 ]: matchKey ""CRC32""
-    // c
-    :	falsey ,
-} , }
-")).
-Eval vm_compute in ("<<<M4277>>>" ++ check (runes_of_ascii "packet tag {
-    float32 repeatCount @calculatedFrom(""// no comment""),
-}
-
-packet i64_ {
-    char[00] calculatedFrom,// " ++ [128512]%N ++ runes_of_ascii " emoji
-    @calculatedFrom(""packet"")
-    i16 Packet,
-    falsey {
-        char[] calculatedFrom @lengthOf(stringy) ``,
-    },
-    repeat i32 matchKey,
-    repeat char[7] tag `// not a comment`,
-    leftPad {
-        // @lengthOf(
-        char[] i8i8,
-    },
-    @lengthOf(x_y_z)
-    char[3] matchKey ``,
-    float {
-        char[] chars,
-        repeat zchar[1] x_y_z,
-    },
-    i8 x_y_z,
-    string asx,
-}
-
-root packet int {
-    chars @lengthOf(Foo) `a\`,
-    repeat char[0123456789] BodyLength,
-    i8 T,
-    @rightPad()
-    u64 lengthOf,
-}")).
-Eval vm_compute in ("<<<M3663>>>" ++ check (runes_of_ascii "// top
-options // c0a
-  // c0b
-{ // c1a
-  // c1b
+Eval vm_compute in ("<<<M1564>>>" ++ check (runes_of_ascii "// top
+options
+    // c0
+{ // c1
 LittleEndian
     // c2
-=
-    // c3
-true ; // c5
+= // c3
+false ; FixedStringPadFromLeft // c6a
+  // c6b
+= // c7a
+  // c7b
+false // c8
+; FixedStringPadChar
+    // c10
+= ' ' // c12
+; // c13
 }
-    // c6
+    // c14
+packet Fill
+    // c16
+{ uint16 // c18
+Qty
+    // c19
+, // c20a
+  // c20b
+uint64 clOrdID , // c23a
+  // c23b
+repeat // c24a
+  // c24b
+i64
+    // c25
+Flags
+    // c26
+, // c27a
+  // c27b
+}
+    // c28
 packet
-    // c7
-Logon // c8a
+    // c29
+Ack // c30
+{ // c31a
+  // c31b
+zchar[
+    // c32
+7 ] // c34a
+  // c34b
+clOrdID , u64 // c37a
+  // c37b
+lastPx // c38
+, // c39
+char[] // c40a
+  // c40b
+Note // c41a
+  // c41b
+, // c42a
+  // c42b
+repeat Fill
+    // c44
+,
+    // c45
+int32 // c46
+count // c47a
+  // c47b
+, // c48
+} packet Quote { // c52a
+  // c52b
+u8 venue ,
+    // c55
+InRef40
+    // c56
+{
+    // c57
+char[] // c58a
+  // c58b
+Qty // c59
+,
+    // c60
+} // c61a
+  // c61b
+, // c62a
+  // c62b
+zchar[
+    // c63
+5 // c64a
+  // c64b
+] Flags // c66a
+  // c66b
+,
+    // c67
+@rightPad // c68a
+  // c68b
+( // c69a
+  // c69b
+'\x00' // c70a
+  // c70b
+) // c71a
+  // c71b
+char[ // c72a
+  // c72b
+12 // c73a
+  // c73b
+]
+    // c74
+msgKind // c75a
+  // c75b
+, // c76
+} // c77a
+  // c77b
+packet Logout // c79
+{ InSym79 // c81
+{
+    // c82
+int32 Qty // c84a
+  // c84b
+, // c85
+Fill
+    // c86
+, char[ 3 // c89
+] // c90
+x ,
+    // c92
+repeat // c93
+InNote29 // c94
+{ // c95a
+  // c95b
+i16 // c96
+price
+    // c97
+,
+    // c98
+Ack // c99a
+  // c99b
+, // c100a
+  // c100b
+f64 x , zchar[
+    // c104
+8
+    // c105
+]
+    // c106
+count , // c108
+}
+    // c109
+, // c110
+} // c111
+,
+    // c112
+} root // c114a
+  // c114b
+packet // c115a
+  // c115b
+Logon {
+    // c117
+zchar[ 1 // c119
+] // c120a
+  // c120b
+sym // c121
+,
+    // c122
+u32 // c123a
+  // c123b
+count // c124
+, u16
+    // c126
+tag7 @lengthOf(
+    // c128
+Body // c129a
+  // c129b
+) // c130a
+  // c130b
+,
+    // c131
+match // c132
+count as
+    // c134
+Body { // c136
+[
+    // c137
+122 // c138
+,
+    // c139
+152
+    // c140
+] // c141a
+  // c141b
+: Ack
+    // c143
+, 118
+    // c145
+: // c146
+Logout
+    // c147
+, // c148a
+  // c148b
+61 // c149
+: // c150a
+  // c150b
+Quote , // c152
+161 // c153
+: // c154
+Fill // c155a
+  // c155b
+, // c156
+} // c157
+, u32 // c159a
+  // c159b
+Acct
+    // c160
+@calculatedFrom( // c161
+""CRC32"" ) // c163a
+  // c163b
+, } ")).
+Eval vm_compute in ("<<<M322>>>" ++ check (runes_of_ascii "
+packet
+metadata {
+i8 BodyLength,
+asx `two words`  ,char[ 0123456789] asx`" ++ [28040; 24687; 31867; 22411]%N ++ runes_of_ascii "`// " ++ [128512]%N ++ runes_of_ascii " emoji
+, @tag(
+42/// triple
+)
+    repeat	charz `crlf
+line` ,
+body ,@tag( 65535  ) match
+    // " ++ [128512]%N ++ runes_of_ascii " emoji
+    Pad as x_y_z  { ""{,}"" :
+u , } ,
+    repeat Foo
+    {repeat pack {
+// `tick` ""quote"" 'q'
+// `tick` ""quote"" 'q'
+f32 calculatedFrom
+    @lengthOf( options1
+    )
+,
+//x
+// c
+}
+, int32 Header @calculatedFrom(""a	b"")
+, char[]
+zchar
+    `
+`
+    ,
+    zchar[00 ]a1 @calculatedFrom(
+    // c
+    ""{,}"") `crlf
+line` , }
+,
+    body zchar ,i64_ @calculatedFrom( ""a\\""  )
+, // " ++ [27880; 37322]%N ++ runes_of_ascii "
+match
+/// triple
+// " ++ [27880; 37322]%N ++ runes_of_ascii "
+zchar
+as zchar {	1 : u128
+    ,
+255
+: packetx, [""{,}"" ,""// no comment"",  0 , 65535 ,  3 ] :  u8x, 0123456789:  calculatedFrom // `tick` ""quote"" 'q'
+, 10 : Header	,
+}
+    ,
+}packet string_
+{ @tag( 10 ) T, @calculatedFrom(""CRC32""//	t
+)@lengthOf(charz )@lengthOf(
+zchar) zchar[
+42
+    ] // a // b
+a1 `" ++ [233]%N ++ runes_of_ascii "` , int32 x `two words` //
+, float32 repeatCount ,
+    //
+    @lengthOf(
+    Packet) @rightPad('0'	) // @lengthOf(
+@calculatedFrom(""a\""b"") zchar[ 0 ]	repeatCount @lengthOf(
+BodyLength  ) // trailing space 
+, float,
+repeat
+zchar
+// trailing space 
+//x
+,} root packet body
+{  @lengthOf(msg_type) repeat
+    u128 {// trailing space 
+char[
+// " ++ [128512]%N ++ runes_of_ascii " emoji
+//
+0123456789 ]options1
+,
+}	, //	t
+f64
+    u128`it's`	,// @lengthOf(
+repeat  i64 charz ,
+@calculatedFrom( """ ++ [128512]%N ++ runes_of_ascii """ )
+    repeat char
+    roots, } packet
+metadata // @lengthOf(
+{ // trailing space 
+@lengthOf( // packet A { u8 x, }
+BodyLength ) @tag( 4294967296  ) f32a
+A
+, } MetaData u128 { } //")).
+Eval vm_compute in ("<<<M1533>>>" ++ check (runes_of_ascii "options {
+    StringPrefixLenType = u16;
+    ArrayPrefixLenType = u8;
+    FixedStringPadFromLeft = true;
+    FixedStringPadChar = ' ';
+}
+packet Quote {
+    int64 OrderId,
+    char[] Ref,
+    @leftPad('0') char[5] price,
+}
+packet Heartbeat {
+    zchar[3] venue,
+    string Flags,
+}
+packet Trade {
+    repeat InTag787 {
+        i32 venue,
+        char[5] sym,
+        repeat InPx98 {
+            char[11] Qty,
+            Heartbeat,
+            char[] price,
+            u32 x,
+            float64 count,
+            repeat Quote,
+        },
+        zchar[7] Note,
+        repeat char[1] Tail,
+    },
+    repeat char[2] seqNo,
+    InTail55 {
+        repeat Quote,
+        string msgKind,
+        InPx18 {
+            char[] count,
+            repeat Quote,
+            uint16 Qty,
+        },
+        char[4] seqNo,
+        repeat Heartbeat,
+        repeat string sym,
+    },
+    repeat Quote,
+    Heartbeat,
+    @leftPad(' ') char[10] OrderId,
+}
+root packet Fill {
+    Heartbeat,
+    uint32 count,
+    u8 OrderId,
+    match OrderId as Body {
+        96 : Quote,
+        195 : Trade,
+        187 : Heartbeat,
+    },
+    u32 venue @calculatedFrom(""CRC32""),
+}
+")).
+Eval vm_compute in ("<<<M204>>>" ++ check (runes_of_ascii "options {
+chars  =
+    //x
+    ' '	}
+root packet	string_ {i8i8 @lengthOf(
+Z9_ )
+,	match int as chars // c
+{ 007: body	,[ // packet A { u8 x, }
+42 ] : int	, ""`tick`"" : options1
+, } ,
+@leftPad ( ' ' )uint16 crc `it's` , // a // b
+float64  packetx
+@lengthOf( crc // " ++ [27880; 37322]%N ++ runes_of_ascii "
+)// trailing space 
+, @tag(4294967296
+) match int
+as chars{4294967296
+    : Foo ,
+1:
+asx 10
+: Pad
+    0123456789	: string_
+,
+3
+// " ++ [27880; 37322]%N ++ runes_of_ascii "
+// " ++ [128512]%N ++ runes_of_ascii " emoji
+: T , ""it's""  : As  } , repeat  float falsey `say ""hi""`  ,
+match uint8x as zchar { ""// no comment""
+    : body
+, 0123456789 : crc , ""{,}"" : o } ,repeat o chars ,uint32
+As
+`doc` ,
+repeat trueish
+{ char[
+    7
+] i64_
+`{ , }`  , }
+, } packet
+    Packet {
+zchar[ 0123456789 ] matchKey @lengthOf( chars
+)  ,  x
+//	t
+// a // b
+{
+u64 o ,} , zchar[
+    // a // b
+    1 ]
+    MetaDataX
+@calculatedFrom(
+"""" ), char[]lengthOf// trailing space 
+@calculatedFrom( // " ++ [27880; 37322]%N ++ runes_of_ascii "
+""a\""b""
+) `
+` ,@rightPad( ' ' ) //	t
+uint16
+len `a\` , @lengthOf( //x
+tag )
+char[ 65535
+] pack ``, }
+")).
+Eval vm_compute in ("<<<M1980>>>" ++ check (runes_of_ascii "packet _x {
+
+    u , @lengthOf(	len
+)
+    match
+    f32a	as
+Pad {
+
+    ""packet"":
+
+metadata ,	""CRC32""  :x_y_z
+
+    [
+""abc""
+,""{,}""
+    ] :
+Logon
+
+    ,}
+    // c
+      ,
+
+zchar[
+7 ]
+
+    a1
+
+    ,  @tag(
+
+65535  ) @tag(
+
+0123456789 )
+	//x
+	@lengthOf(asx
+) repeat
+i16 	 // @lengthOf(
+    tag
+
+    `{ , }`  // `tick` ""quote"" 'q'
+	,
+@leftPad	(
+
+'\x00'
+)
+
+match  i64_ as x{
+0
+	:
+crc
+,
+	[ 
+    //	t
+// trailing space 
+      ""// no comment""
+
+    ]  :
+	uint8x, 42
+    // a // b
+  // trailing space 
+    :
+string_ , 
+007:
+	trueish
+	, [
+
+10
+
+] // " ++ [128512]%N ++ runes_of_ascii " emoji
+    	: 
+rootA
+
+""" ++ [28040; 24687]%N ++ runes_of_ascii """ :// trailing space 
+  len ,	}	//
+
+  ,	@rightPad 
+('\x00'	// trailing space 
+) 
+@tag(
+//
+      00
+
+)@calculatedFrom(	""" ++ [233]%N ++ runes_of_ascii "t" ++ [233]%N ++ runes_of_ascii """
+    )  // c
+    char[]
+
+float@calculatedFrom(
+""\n"" ) ,repeat
+f32 trueish
+`crlf
+line`
+, } // @lengthOf(
+ 
+")).
+Eval vm_compute in ("<<<M1583>>>" ++ check (runes_of_ascii "// top
+options
+    // c0
+{ // c1
+LittleEndian =
+    // c3
+true // c4a
+  // c4b
+; } // c6a
+  // c6b
+packet // c7a
+  // c7b
+Sub // c8a
   // c8b
 {
     // c9
-u8 x // c11
-, // c12
-string // c13a
+u8 a // c11a
+  // c11b
+, @calculatedFrom( // c13a
   // c13b
-user ,
-    // c15
-} packet // c17a
-  // c17b
-Logout {
-    // c19
-u16
-    // c20
-reason , // c22
-} packet // c24
-Empty {
-    // c26
-} // c27
-root // c28
-packet Frame
-    // c30
-{
-    // c31
-u16 MsgType , // c34a
-  // c34b
-u16 BodyLen @lengthOf( // c37
-Body // c38a
-  // c38b
-) // c39
-, u8 flags
-    // c42
-, Logon // c44a
-  // c44b
-Body
-    // c45
-, // c46
-u32
-    // c47
-trailer // c48
-,
-    // c49
-} // c50a
-  // c50b
-")).
-Eval vm_compute in ("<<<M844>>>" ++ check (runes_of_ascii "root packet i8i8{ }
-    root packet zchar {zchar[ 4294967296 ]
-i8i8, @lengthOf(f32a
-) match lengthOf as tag // a // b
-{ 00 :
-As,
-}
-,
-msg_type`" ++ [233]%N ++ runes_of_ascii "` , i64_ @calculatedFrom( """" ) ,
-    zchar[
-    //
-    3 ]//	t
-roots
-    , options1`u8 x,` ,
-@lengthOf( string_)
-BodyLength int `// not a comment`,
-} packet x_y_z
-    { @rightPad( ' ' )
-    //x
-    options1
-    @calculatedFrom( ""`tick`"" ) ,
-    float64
-    As @lengthOf(
-a1
-    ) ,
-    char[]
-a1 ,
-}packet
-packetx
-    {
-@leftPad ( '\x00'
-)stringy	`a\` , } packet packetx {@lengthOf(
-tag
-)	repeat  char T , @leftPad (' ' )  options1 matchKey  ,
-    }
-")).
-Eval vm_compute in ("<<<M1130>>>" ++ check (runes_of_ascii "root packet Foo {u64 calculatedFrom @lengthOf( u ) , u16
-len ,
-match metadata as
-a1{
-// `tick` ""quote"" 'q'
-// " ++ [27880; 37322]%N ++ runes_of_ascii "
-255 :roots
-,
-10: i8i8
-    [ // a // b
-00
-] :i8i8, [
-    ""abc""  ] :
-    Header
-,
-[
-    // packet A { u8 x, }
-    00 ] // packet A { u8 x, }
-: x , ""abc"" :
-Logon } , @leftPad(
-    '0') // " ++ [27880; 37322]%N ++ runes_of_ascii "
-Pad{  zchar[ 10] asx `{ , }`, Header@calculatedFrom(
-""a\\"" ) , repeat T
-,
-int16	roots `// not a comment`,  } ,	}packet o { @tag( 00
-) @leftPad ( '\x00'
-// `tick` ""quote"" 'q'
-//x
-) Z9_
-//	t
-//
-@calculatedFrom( ""CRC32"" ) ,@lengthOf(	crc
-//x
-//
+""CRC16"" // c14a
+  // c14b
 )
-    zchar
-, }
-")).
-Eval vm_compute in ("<<<M485>>>" ++ check (runes_of_ascii "packet	options1 { // " ++ [27880; 37322]%N ++ runes_of_ascii "
-string
-    stringy @lengthOf( u8x// trailing space 
-)	`it's` ,  zchar[ 7] // a // b
-Packet`tab	here` ,char[]  leftPad `" ++ [28040; 24687; 31867; 22411]%N ++ runes_of_ascii "` , f32 packetx
-`a\`
-    ,  char[]
-    //	t
-    len,
-    metadata // trailing space 
-{ float32 Pad @lengthOf(tag),
-repeat string_ lengthOf`crlf
-line`,
-// `tick` ""quote"" 'q'
-/// triple
-} , @lengthOf(	asx ) char[]trueish @lengthOf(
-Header ) `tab	here`  , @leftPad( '0'
-    )char[] Foo,zchar[10
-    ]packetx
-, repeat leftPad `u8 x,` ,
-    }
-    packet pack
-{
-    } options {
-    //
-    }
-")).
-Eval vm_compute in ("<<<M3206>>>" ++ check (runes_of_ascii "// top
-options
-    // c0
-{
-    // c1
-charz
-    // c2
-=
-    // c3
-f64
-    // c4
-;
-    // c5
-metadata
-    // c6
-=
-    // c7
-7
-    // c8
-;
-    // c9
-}
-    // c10
-options
-    // c11
-{
-    // c12
-u128
-    // c13
-=
-    // c14
-10
     // c15
-options1
+u64
     // c16
-=
-    // c17
-true
-    // c18
-;
-    // c19
-zchar
-    // c20
-=
-    // c21
-uint16
-    // c22
-;
-    // c23
-lengthOf
-    // c24
-=
-    // c25
-true
-    // c26
-;
-    // c27
-}
-    // c28
-options
-    // c29
-{
-    // c30
-len
-    // c31
-=
-    // c32
-1
-    // c33
-}
-    // c34
-")).
-Eval vm_compute in ("<<<M4074>>>" ++ check (runes_of_ascii "options {
-    x = ""abc"";
-}
-
-root packet calculatedFrom {
-    // trailing space 
-    @tag(1)
-    match x_y_z as int {
-        [""it's""] : uint8x,
-        4294967296 : i64_,
-        ""x y"" : BodyLength,
-        ""x y"" : u8x,
-    },
-    @tag(007)
-    @tag(7)
-    // " ++ [27880; 37322]%N ++ runes_of_ascii "
-    @lengthOf(x_y_z)
-    u64 crc,
-    @calculatedFrom(""CRC32"")
-    u64 chars @calculatedFrom(""// no comment""),
-    @rightPad()
-    zchar[10] lengthOf,
-    char[65535] u128,
-}
-
-options {
-    falsey = true;
-}
-
-packet BodyLength {
-}")).
-Eval vm_compute in ("<<<M1039>>>" ++ check (runes_of_ascii "MetaData MetaDataX{i64_ leftPad , zchar[7 ] u8x`" ++ [28040; 24687; 31867; 22411]%N ++ runes_of_ascii "` , zchar[// `tick` ""quote"" 'q'
-00 ] crc  `crlf
-line` , char[
-    255 ]
-    zchar
-, u32 x//
-`tab	here`
-, i64_ falsey `it's` ,} MetaData A
-/// triple
-//	t
-{ char[ 7 ] // `tick` ""quote"" 'q'
-calculatedFrom /// triple
-`two words` , asx asx `tab	here`, float64 trueish,zchar[ 42 ] f32a `tab	here` // " ++ [128512]%N ++ runes_of_ascii " emoji
-, char[]
-    u128 ,
-    } packet uint8x { @tag(  1
-//
-// @lengthOf(
-) repeat
-    //	t
-    char[]
-Packet, } // c")).
-Eval vm_compute in ("<<<M964>>>" ++ check (runes_of_ascii "// c
-root packet o{ @tag( 42
-) a1
-, }
-options { asx
-=char[ 0	]
-/// triple
-// `tick` ""quote"" 'q'
-;
-int =
-    // c
-    '\x00' ;_x	=
-""it's""	packetx // a // b
-= ""// no comment""  u8x = """ ++ [233]%N ++ runes_of_ascii "t" ++ [233]%N ++ runes_of_ascii """ } root// trailing space 
-packet T { @lengthOf( float )match falsey
-//	t
-// trailing space 
-as  matchKey {
-""a\\""
-: x_y_z
-// a // b
-// `tick` ""quote"" 'q'
-,
-    //x
-    } //
-, } options // a // b
-{ zchar = 0// trailing space 
-repeatCount= uint64
-    ;// a // b
-}")).
-Eval vm_compute in ("<<<M3632>>>" ++ check (runes_of_ascii "options {
-    LittleEndian = true;
-    StringPrefixLenType = u16;
-    ArrayPrefixLenType = u64;
-}
-packet Fill {
-}
-packet Logon {
-    repeat char[3] Tail,
-    zchar[6] venue,
-    repeat string Side2,
-}
-root packet Cancel {
-    char[] Flags,
-    char[] OrderId,
-    zchar[6] msgKind,
-    Fill,
-    char[] Acct,
-    u8 f1,
-    match f1 as Body {
-        188 : Fill,
-        5 : Logon,
-    },
-    u32 clOrdID @calculatedFrom(""CRC32""),
-}
-")).
-Eval vm_compute in ("<<<M1368>>>" ++ check (runes_of_ascii "
-root  packet crc  { @leftPad (
-    '0'
-) @lengthOf( float)roots
-    Logon `u8 x,` , char[ 3
-] repeatCount `a\`
-// `tick` ""quote"" 'q'
-// @lengthOf(
-,match
-uint8x as//x
-msg_type{ 10
-:  body , 0123456789  :o
-} ,
-repeat x
-// c
-// c
-{ uint8 roots
-@calculatedFrom( ""abc"" ) `" ++ [28040; 24687; 31867; 22411]%N ++ runes_of_ascii "`,
-}
-, } packet //	t
-calculatedFrom
-{uint8 MetaDataX `// not a comment` , }
-packet crc {
-Z9_
-{ repeat crc `doc`
-,Z9_ ``,  }, }
-// a // b
-")).
-Eval vm_compute in ("<<<M4271>>>" ++ check (runes_of_ascii "// top
-root packet Frame {
-    // c3
-    u8 K,
-    // c6
-    Logon first,// c9a
-    // c9b
-    match K as Body {
-        // c14a
-        // c14b
-        1 : Logon,
-        // c18a
-        // c18b
-        2 : Logout,
-        // c22
-    },
-}
-
-// c25
-packet Logon {
-    // c28
-    string user,// c31a
-    // c31b
-}// c32a
-
-// c32b
-packet Logout {
-    // c35
-    u16 reason,// c38a
-    // c38b
-}
-// c39")).
-Eval vm_compute in ("<<<M3308>>>" ++ check (runes_of_ascii "// top
+SubSum , } // c19a
+  // c19b
 root
-    // c0
-packet
-    // c1
-matchKey
-    // c2
-{
-    // c3
-zchar[
-    // c4
-3
-    // c5
-]
-    // c6
-pack
-    // c7
-@calculatedFrom(
-    // c8
-""a	b""
-    // c9
-)
-    // c10
-`doc`
-    // c11
-,
-    // c12
-}
-    // c13
-options
-    // c14
-{
-    // c15
-}
-    // c16
-MetaData
-    // c17
-A
-    // c18
-{
-    // c19
-int8
     // c20
-msg_type
-    // c21
-,
-    // c22
-}
-    // c23
-")).
-Eval vm_compute in ("<<<M4049>>>" ++ check (runes_of_ascii "
-packet
-    float
-	{ @leftPad
-(
-    ' '
-
-)	@calculatedFrom(	// `tick` ""quote"" 'q'
-""a\""b""
-
-    )	@calculatedFrom( 
-""packet"" )
-    u32
-
-msg_type 
-  //
-		// a // b
-`" ++ [233]%N ++ runes_of_ascii "`	, @tag( 
-00	)
-
-    @rightPad
-	(
-
-    ' '
-    ) repeat  chars metadata // " ++ [128512]%N ++ runes_of_ascii " emoji
-    ,  @rightPad
-    ('0')
-	tag
-	string_
-
-    ,
-
-repeat
-
-f64
-    int 
-`u8 x,`
-
-    ,
-	} 
-        // c
-")).
-Eval vm_compute in ("<<<M1182>>>" ++ check (runes_of_ascii "packet Packet{@tag(
-4294967296
-    )  charz	{ repeat
-char[
-    0123456789] BodyLength ,repeat trueish stringy , }, }options { body = char ; leftPad =uint16
-    //	t
-    ; stringy
-    = true ; packetx
-= true
-// `tick` ""quote"" 'q'
-//
-float=char[ 255 ]}
-// `tick` ""quote"" 'q'
-/// triple
-root packet	len {  @leftPad  ( '0') uint64
-    a1
-    ,} 	 ")).
-Eval vm_compute in ("<<<M3806>>>" ++ check (runes_of_ascii "options {
-    len = ""x y"";
-}
-
-packet repeatCount {
-    zchar[7] f32a,
-}
-
-packet asx {
-    len @calculatedFrom(""a\\"") `line1
-    line2`,
-    @lengthOf(T)
-    u8x `a\`,
-    @tag(3)
-    char Pad `
-    `,
-    char[4294967296] metadata @calculatedFrom(""CRC32""),
-    @lengthOf(Header)
-    u64 uint8x @calculatedFrom(""x y""),
-}
-// " ++ [128512]%N ++ runes_of_ascii " emoji")).
-Eval vm_compute in ("<<<M1913>>>" ++ check (runes_of_ascii "MetaData
-    u { }  options {
-// c
-// @lengthOf(
-float = int8 ;rootA uint16 false ; As =	int16 // `tick` ""quote"" 'q'
-repeatCount
-    // trailing space 
-    =
-    int16
-; u8x =
-    //	t
-    '\x00' ; } options	{
-    repeatCount
-= 0
-u128
-    //
-    = false ; i64_
-// trailing space 
-// `tick` ""quote"" 'q'
-= '0' ; //	t
-}
-")).
-Eval vm_compute in ("<<<M90>>>" ++ check (runes_of_ascii "packet charz {repeat char[ 3 ]
-BodyLength,As stringy, match
-    tag as uint8x { //
-[ ""it's"" , 007
-    , 4294967296
-    // c
-    ] : uint8x ,
-}, // a // b
-@tag( 0
-)/// triple
-repeat char[	7	] u	,}
-    // packet A { u8 x, }
-    MetaData options1
-    { Z9_  _x ,	} packet BodyLength
-{} MetaData chars { float Foo,
-}")).
-Eval vm_compute in ("<<<M2071>>>" ++ check (runes_of_ascii "MetaData
-    u { }  options " ++ [65279]%N ++ runes_of_ascii " {
-// c
-// @lengthOf(
-float = int8 ;rootA =false ; As =	int16 // `tick` ""quote"" 'q'
-repeatCount
-    // trailing space 
-    =
-    int16
-; u8x =
-    //	t
-    '\x00' ; } options	{
-    repeatCount
-= 0
-u128
-    //
-    = false ; i64_
-// trailing space 
-// `tick` ""quote"" 'q'
-= '0' ; //	t
-}
-")).
-Eval vm_compute in ("<<<M1917>>>" ++ check (runes_of_ascii "MetaData
-    u { }  options {
-// c
-// @lengthOf(
-float = int8 ;rootA =; false As =	int16 // `tick` ""quote"" 'q'
-repeatCount
-    // trailing space 
-    =
-    int16
-; u8x =
-    //	t
-    '\x00' ; } options	{
-    repeatCount
-= 0
-u128
-    //
-    = false ; i64_
-// trailing space 
-// `tick` ""quote"" 'q'
-= '0' ; //	t
-}
-")).
-Eval vm_compute in ("<<<M2074>>>" ++ check (runes_of_ascii "MetaData
-    u { }  options {
-// c
-// @lengthOf(
-float = int8 ;rootA =false ; " ++ [21517; 23383]%N ++ runes_of_ascii " =	int16 // `tick` ""quote"" 'q'
-repeatCount
-    // trailing space 
-    =
-    int16
-; u8x =
-    //	t
-    '\x00' ; } options	{
-    repeatCount
-= 0
-u128
-    //
-    = false ; i64_
-// trailing space 
-// `tick` ""quote"" 'q'
-= '0' ; //	t
-}
-")).
-Eval vm_compute in ("<<<M1925>>>" ++ check (runes_of_ascii "MetaData
-    u { }  options {
-// c
-// @lengthOf(
-float = int8 ;rootA =false ;  =	int16 // `tick` ""quote"" 'q'
-repeatCount
-    // trailing space 
-    =
-    int16
-; u8x =
-    //	t
-    '\x00' ; } options	{
-    repeatCount
-= 0
-u128
-    //
-    = false ; i64_
-// trailing space 
-// `tick` ""quote"" 'q'
-= '0' ; //	t
-}
-")).
-Eval vm_compute in ("<<<M724>>>" ++ check (runes_of_ascii "// " ++ [128512]%N ++ runes_of_ascii " emoji
-packet
-    u { int `two words` ,
-} packet
-    Packet	{ repeat zchar Foo// @lengthOf(
-,	} packet f32a // c
-{ uint32
-Packet`
-`, @lengthOf(
-    msg_type	) @calculatedFrom(
-    ""it's"" )repeat
-    repeatCount { repeat zchar[ 255 ] u8x ,repeat MetaDataX// c
-`" ++ [28040; 24687; 31867; 22411]%N ++ runes_of_ascii "` , int64
-    Pad `tab	here` ,} ,}
-")).
-Eval vm_compute in ("<<<M3986>>>" ++ check (runes_of_ascii "MetaData T {
-    Foo lengthOf,
-    string packetx `// not a comment`,
-    zchar[0] metadata `crlf
-    line`,
-    x string_ `line1
-    line2`,
-}
-
-packet repeatCount {
-    char[255] A @calculatedFrom(""a\\""),
-    float32 BodyLength @lengthOf(_x) `doc`,
-    char[] trueish @calculatedFrom(""packet""),
-}")).
-Eval vm_compute in ("<<<M4110>>>" ++ check (runes_of_ascii "packet rootA {
-    @lengthOf(A)
-    @leftPad('0')
-    @lengthOf(_x)
-    char[0] len,
-}
-
-root packet _x {
-    @lengthOf(MetaDataX)
-    u16 x `say ""hi""`,
-    match string_ as Foo {
-        42 : string_,
-        00 : T,
-    },
-    char[] trueish,
-    repeat calculatedFrom x_y_z,// a // b
-}")).
-Eval vm_compute in ("<<<M32>>>" ++ check (runes_of_ascii "options	{
-    // `tick` ""quote"" 'q'
-    Foo
-= zchar[
-    1
-]uint8x =""// no comment"" Pad
-=
-    //
-    char[] ;
-    A
-= 4294967296
-    a1 = ""`tick`"" ; } packet BodyLength  {
-@calculatedFrom(
-""packet"" ) roots `// not a comment`,@tag( 10 ) f32 uint8x/// triple
-`" ++ [28040; 24687; 31867; 22411]%N ++ runes_of_ascii "`
-,	}
-
-")).
-Eval vm_compute in ("<<<M228>>>" ++ check (runes_of_ascii "
-packet
-Z9_  { } packet T
+packet // c21
+Frame // c22
 {
-repeat
-    charz {match float as // " ++ [128512]%N ++ runes_of_ascii " emoji
-stringy {00 : f32a [ 00
-    //x
-    , 00 ,""a\\""
-// packet A { u8 x, }
-// a // b
-, 0 ,	7, 0 ] : As , } ,//	t
-uint32 asx ,
-//
-/// triple
-repeat u8x {
-    repeat
+    // c23
+u16 MsgType // c25
+, // c26a
+  // c26b
+u16 // c27
+BodyLen
+    // c28
+@lengthOf(
+    // c29
+Body // c30a
+  // c30b
+) // c31
+, Sub // c33
+Body // c34
+, string
+    // c36
+note // c37a
+  // c37b
+, // c38
+@calculatedFrom( ""CRC16"" // c40a
+  // c40b
+) // c41
+u64 Checksum // c43a
+  // c43b
+,
+    // c44
+u8 tail // c46
+, // c47a
+  // c47b
+}
+    // c48
+")).
+Eval vm_compute in ("<<<M186>>>" ++ check (runes_of_ascii "packet Packet { @tag(	65535 ) @leftPad ( ' '
+    )
+@tag( 255
+    /// triple
+    )
+    uint8
+len
+    @lengthOf( T), int32 u8x , @lengthOf( rootA )float32 i64_
+`u8 x,` , } packet// c
+int { repeat	i8i8
+{lengthOf
+    @lengthOf( int)`line1
+line2`
+, string	falsey `
+` ,uint16
+// `tick` ""quote"" 'q'
+// trailing space 
+roots
+@lengthOf(
+charz), } , }options
+    { Foo = ' '	len  = """ ++ [128512]%N ++ runes_of_ascii """
+; chars= u64 ;
 //x
 //
-u8 string_ ,
-} , } , }
-")).
-Eval vm_compute in ("<<<M1583>>>" ++ check (runes_of_ascii "packet
-//	t
-// trailing space 
-_x {
-// packet A { u8 x, }
-// c
-char[
-3
-    ] u8x @lengthOf(
-u8x ) , @calculatedFrom(""" ++ [128512]%N ++ runes_of_ascii """ // @lengthOf(
-)
-i16	Foo
-@lengthOf(	string_
-    )`doc` `doc`	, repeat	i64 metadata , @lengthOf( string_
-) i8 // c
-u  `line1
-line2`	,
-}
-")).
-Eval vm_compute in ("<<<M1553>>>" ++ check (runes_of_ascii "packet
-//	t
-// trailing space 
-_x {
-// packet A { u8 x, }
-// c
-char[
-3
-    ] u8x @lengthOf(
-u8x ) , @calculatedFrom(""" ++ [128512]%N ++ runes_of_ascii """ // @lengthOf(
-) )
-i16	Foo
-@lengthOf(	string_
-    )`doc`	, repeat	i64 metadata , @lengthOf( string_
-) i8 // c
-u  `line1
-line2`	,
-}
-")).
-Eval vm_compute in ("<<<M457>>>" ++ check (runes_of_ascii "packet options1 // a // b
-{ @leftPad ('0' )// " ++ [128512]%N ++ runes_of_ascii " emoji
-match uint8x as
-    // `tick` ""quote"" 'q'
-    T{
-42 : stringy ,[""1"" ] :i64_,//
-3
-:
-    string_
-    , ""a\\"" : metadata  , ""CRC32"" :
-int
-    //x
-    ""packet""
-:
-    rootA, } , } root packet i8i8
-{ }")).
-Eval vm_compute in ("<<<M1614>>>" ++ check (runes_of_ascii "packet
-//	t
-// trailing space 
-_x {
-// packet A { u8 x, }
-// c
-char[
-3
-    ] u8x @lengthOf(
-u8x ) , @calculatedFrom(""" ++ [128512]%N ++ runes_of_ascii """ // @lengthOf(
-)
-i16	Foo
-@lengthOf(	string_
-    )`doc`	, repeat	i64 metadata , string_ @lengthOf(
-) i8 // c
-u  `line1
-line2`	,
-}
-")).
-Eval vm_compute in ("<<<M1627>>>" ++ check (runes_of_ascii "packet
-//	t
-// trailing space 
-_x {
-// packet A { u8 x, }
-// c
-char[
-3
-    ] u8x @lengthOf(
-u8x ) , @calculatedFrom(""" ++ [128512]%N ++ runes_of_ascii """ // @lengthOf(
-)
-i16	Foo
-@lengthOf(	string_
-    )`doc`	, repeat	i64 metadata , @lengthOf( string_
-)  // c
-u  `line1
-line2`	,
-}
-")).
-Eval vm_compute in ("<<<M1602>>>" ++ check (runes_of_ascii "packet
-//	t
-// trailing space 
-_x {
-// packet A { u8 x, }
-// c
-char[
-3
-    ] u8x @lengthOf(
-u8x ) , @calculatedFrom(""" ++ [128512]%N ++ runes_of_ascii """ // @lengthOf(
-)
-i16	Foo
-@lengthOf(	string_
-    )`doc`	, repeat	i64  , @lengthOf( string_
-) i8 // c
-u  `line1
-line2`	,
-}
-")).
-Eval vm_compute in ("<<<M1542>>>" ++ check (runes_of_ascii "packet
-//	t
-// trailing space 
-_x {
-// packet A { u8 x, }
-// c
-char[
-3
-    ] u8x @lengthOf(
-u8x ) , """ ++ [128512]%N ++ runes_of_ascii """ // @lengthOf(
-)
-i16	Foo
-@lengthOf(	string_
-    )`doc`	, repeat	i64 metadata , @lengthOf( string_
-) i8 // c
-u  `line1
-line2`	,
-}
-")).
-Eval vm_compute in ("<<<M3939>>>" ++ check (runes_of_ascii "packet metadata {
-    @lengthOf(i8i8)
-    match BodyLength as Foo {
-        3 : len,
-    },
-    body @lengthOf(roots),
-    f32a x,
-}
-
-root packet i8i8 {
-    zchar[10] i64_ @calculatedFrom(""a\\"") `
-    `,
-}// packet A { u8 x, }")).
-Eval vm_compute in ("<<<M3626>>>" ++ check (runes_of_ascii "options {
-    StringPrefixLenType = u16;
-    FixedStringPadChar = ' ';
-}
-packet Party {
-}
-packet Quote {
-    repeat Party,
-    repeat char[2] f1,
-}
-packet Logon {
-}
-root packet Cancel {
-    uint16 x,
-    zchar[6] f1,
-}
-")).
-Eval vm_compute in ("<<<M3941>>>" ++ check (runes_of_ascii "
-MetaData float{ 	 // " ++ [27880; 37322]%N ++ runes_of_ascii "
-	}
-root packet Header {
-float{
-
-    i32
-    u8x
-	@lengthOf(
-a1)
-`u8 x,`, 
-}
-
-,
-char[] i64_@calculatedFrom(
-	""a\\"" ) `" ++ [233]%N ++ runes_of_ascii "`,
-
-    float64
-
-packetx `{ , }`
-	,
-	} // packet A { u8 x, }
- 
-")).
-Eval vm_compute in ("<<<M1782>>>" ++ check (runes_of_ascii "options { trueish = ""`tick`"" ; string_= """ ++ [233]%N ++ runes_of_ascii "t" ++ [233]%N ++ runes_of_ascii """
-    // c
-    } root
-    packet body { stringy @calculatedFrom(
-""a	b"" ) `line1
-line2` , }
-packet Logon Logon {
-    @leftPad(
-    ' ' ) //	t
-u16 string_ `u8 x,` ,
-}
-")).
-Eval vm_compute in ("<<<M1767>>>" ++ check (runes_of_ascii "options { trueish = ""`tick`"" ; string_= """ ++ [233]%N ++ runes_of_ascii "t" ++ [233]%N ++ runes_of_ascii """
-    // c
-    } root
-    packet body { stringy @calculatedFrom(
-""a	b"" ) `line1
-line2` , , }
-packet Logon {
-    @leftPad(
-    ' ' ) //	t
-u16 string_ `u8 x,` ,
-}
-")).
-Eval vm_compute in ("<<<M1674>>>" ++ check (runes_of_ascii "{ options trueish = ""`tick`"" ; string_= """ ++ [233]%N ++ runes_of_ascii "t" ++ [233]%N ++ runes_of_ascii """
-    // c
-    } root
-    packet body { stringy @calculatedFrom(
-""a	b"" ) `line1
-line2` , }
-packet Logon {
-    @leftPad(
-    ' ' ) //	t
-u16 string_ `u8 x,` ,
-}
-")).
-Eval vm_compute in ("<<<M1809>>>" ++ check (runes_of_ascii "options { trueish = ""`tick`"" ; string_= """ ++ [233]%N ++ runes_of_ascii "t" ++ [233]%N ++ runes_of_ascii """
-    // c
-    } root
-    packet body { stringy @calculatedFrom(
-""a	b"" ) `line1
-line2` , }
-packet Logon {
-    @leftPad(
-    ' ' 0 //	t
-u16 string_ `u8 x,` ,
-}
-")).
-Eval vm_compute in ("<<<M1801>>>" ++ check (runes_of_ascii "options { trueish = ""`tick`"" ; string_= """ ++ [233]%N ++ runes_of_ascii "t" ++ [233]%N ++ runes_of_ascii """
-    // c
-    } root
-    packet body { stringy @calculatedFrom(
-""a	b"" ) `line1
-line2` , }
-packet Logon {
-    @leftPad(
-     ) //	t
-u16 string_ `u8 x,` ,
-}
-")).
-Eval vm_compute in ("<<<M1681>>>" ++ check (runes_of_ascii "options {  = ""`tick`"" ; string_= """ ++ [233]%N ++ runes_of_ascii "t" ++ [233]%N ++ runes_of_ascii """
-    // c
-    } root
-    packet body { stringy @calculatedFrom(
-""a	b"" ) `line1
-line2` , }
-packet Logon {
-    @leftPad(
-    ' ' ) //	t
-u16 string_ `u8 x,` ,
-}
-")).
-Eval vm_compute in ("<<<M1193>>>" ++ check (runes_of_ascii "MetaData// trailing space 
-int {// " ++ [27880; 37322]%N ++ runes_of_ascii "
-u128 uint8x , // a // b
-string
-    o ,A metadata `u8 x,`  ,
-char[  10 ]
-rootA
-    , packetx x_y_z `doc` ,  string_ // `tick` ""quote"" 'q'
-trueish`doc` , }")).
-Eval vm_compute in ("<<<M3607>>>" ++ check (runes_of_ascii "root packet Frame {
-    u8 K,
-    Logon first,
-    match K as Body {
-        1 : Logon,
-        2 : Logout,
-    },
-}
-packet Logon {
-    string user,
-}
-packet Logout {
-    u16 reason,
-}
-")).
-Eval vm_compute in ("<<<M187>>>" ++ check (runes_of_ascii "root packet u128 { char[  7 ]tag@calculatedFrom(
-""\" ++ [233]%N ++ runes_of_ascii """
-    ) // " ++ [128512]%N ++ runes_of_ascii " emoji
-`" ++ [233]%N ++ runes_of_ascii "`, @rightPad ( )
-    packetx , @lengthOf(  o
-    )	lengthOf
-@lengthOf( float )
-`// not a comment`,
-}
-")).
-Eval vm_compute in ("<<<M4045>>>" ++ check (runes_of_ascii "packet Z9_ {
+uint8x // a // b
+=	""" ++ [128512]%N ++ runes_of_ascii """
     // trailing space 
-    // " ++ [128512]%N ++ runes_of_ascii " emoji
-    @calculatedFrom(""1"")
-    // packet A { u8 x, }
-    matchKey @calculatedFrom(""" ++ [128512]%N ++ runes_of_ascii """) `tab	here`,
-}
-// packet A { u8 x, }")).
-Eval vm_compute in ("<<<M3918>>>" ++ check (runes_of_ascii "  root packet
-
-options1  {
-}options
-
+    ;metadata= ' ' ; }
+    // " ++ [27880; 37322]%N ++ runes_of_ascii "
+    MetaData Header
+    // " ++ [27880; 37322]%N ++ runes_of_ascii "
+    {
+i16
+    matchKey,Packet Packet `u8 x,`  , }packet u128 {uint8x
+@lengthOf(charz) `u8 x,`	, }
+")).
+Eval vm_compute in ("<<<M157>>>" ++ check (runes_of_ascii "root
+packet o { @leftPad (
+    '0'  )repeat uint16 o // `tick` ""quote"" 'q'
+,// `tick` ""quote"" 'q'
+@tag( 1
+    // `tick` ""quote"" 'q'
+    )
+//x
+// " ++ [128512]%N ++ runes_of_ascii " emoji
+@tag( 65535 ) u32 options1 ,@lengthOf( i8i8) @lengthOf(int ) @leftPad// " ++ [27880; 37322]%N ++ runes_of_ascii "
+() char[  42 ] len @calculatedFrom( ""packet"" ) ,
+    u32 Foo @calculatedFrom( ""a\\"") ,
+    } packet a1 {@lengthOf(
+    A /// triple
+)	Foo MetaDataX `it's`, Z9_ metadata
+    //
+    `" ++ [28040; 24687; 31867; 22411]%N ++ runes_of_ascii "` ,
+match MetaDataX
+    as falsey { [ 42
+    ]
+    :body // " ++ [128512]%N ++ runes_of_ascii " emoji
+[""packet""	, 4294967296]
+    :  A} , Z9_ ,}")).
+Eval vm_compute in ("<<<M1466>>>" ++ check (runes_of_ascii "// top
+options // c0
+{ // c1a
+  // c1b
+LittleEndian =
+    // c3
+true // c4a
+  // c4b
+;
+    // c5
+} // c6a
+  // c6b
+packet
+    // c7
+B // c8
 {
+    // c9
+u8 // c10
+a // c11
+, // c12
+string
+    // c13
+s // c14a
+  // c14b
+, // c15
+}
+    // c16
+root
+    // c17
+packet // c18
+P // c19
+{ // c20
+u16 // c21a
+  // c21b
+L // c22a
+  // c22b
+@lengthOf( // c23
+B // c24a
+  // c24b
+)
+    // c25
+, B
+    // c27
+,
+    // c28
+u8
+    // c29
+t , // c31a
+  // c31b
+} // c32
+")).
+Eval vm_compute in ("<<<M328>>>" ++ check (runes_of_ascii "packet string_ { @lengthOf( int) BodyLength u8x,i64_ `tab	here`
+// " ++ [128512]%N ++ runes_of_ascii " emoji
+// @lengthOf(
+,char[  3 ] /// triple
+string_  ,repeat leftPad `" ++ [28040; 24687; 31867; 22411]%N ++ runes_of_ascii "`  ,
+repeat int32
+/// triple
+// `tick` ""quote"" 'q'
+BodyLength`u8 x,`, // `tick` ""quote"" 'q'
+@tag( 4294967296
+) BodyLength	`crlf
+line`
+    ,  msg_type Packet `" ++ [233]%N ++ runes_of_ascii "`
+    , float32 string_ // trailing space 
+@calculatedFrom(""""  )
+, asx int
+    `it's` , }
+")).
+Eval vm_compute in ("<<<M1806>>>" ++ check (runes_of_ascii "options	{
+}
+    root 
 
-u 
+// a // b
+
+packet
+x  //	t
+{	match len
+
+    as x { [ 7 ,
+
+42
+,
+007 , 	 //x
+      255 	 // trailing space 
+    ,""// no comment""
+	    // `tick` ""quote"" 'q'
+	// " ++ [128512]%N ++ runes_of_ascii " emoji
+    ]
+
+:
+
+x_y_z ,""`tick`""
+    :u128,
+    3:	string_ 
+  /// triple
+		,
+[ ""CRC32"" 
+]
+    : trueish,
+
+4294967296 :	Foo
+,
+
+    [
+0] : lengthOf
+}
+
+    ,
+
+}")).
+Eval vm_compute in ("<<<M1738>>>" ++ check (runes_of_ascii "
+options
+    {	charz 
+= ""x y""	calculatedFrom ='0'
+}  packet 
+msg_type{ msg_type  asx	,
+	string // packet A { u8 x, }
+    packetx
+	,
+MetaDataX
+    ,Header
+    { 
+i64 packetx`tab	here`
+, } , } options{ // @lengthOf(
+	uint8x
+
+    =
+    0
+
+    x_y_z
+=""x y""  
+      // packet A { u8 x, }
+
+	//	t
+  ;
+    }
+")).
+Eval vm_compute in ("<<<M238>>>" ++ check (runes_of_ascii "MetaData
+    a1 { // a // b
+}options { o
+= 255
+; } packet f32a //
+{ uint8 _x	@calculatedFrom( ""x y""
+)	,}MetaData
+    options1
+{  f64 lengthOf `it's`
+,lengthOf metadata,	int8 crc
+`
+` /// triple
+,
+    char[0123456789//	t
+]o ,
+// " ++ [128512]%N ++ runes_of_ascii " emoji
+// packet A { u8 x, }
+char[] //	t
+a1,}
+")).
+Eval vm_compute in ("<<<M524>>>" ++ check (runes_of_ascii "root packet tag { }  packet MetaDataX{char[007 007	]
+// c
+/// triple
+asx  @calculatedFrom( ""a\""b""
+) `say ""hi""`// " ++ [27880; 37322]%N ++ runes_of_ascii "
+,  @tag(4294967296 )
+    char[1//x
+] packetx @calculatedFrom(""a\""b""
+    ) ,
+// " ++ [128512]%N ++ runes_of_ascii " emoji
+// a // b
+@calculatedFrom(""" ++ [233]%N ++ runes_of_ascii "t" ++ [233]%N ++ runes_of_ascii """  ) repeat pack // " ++ [27880; 37322]%N ++ runes_of_ascii "
+,
+    } // c")).
+Eval vm_compute in ("<<<M1634>>>" ++ check (runes_of_ascii "packet Foo {
+    @calculatedFrom("""")
+    @calculatedFrom(""1"")
+    @rightPad()
+    int32 As @calculatedFrom("""") `say ""hi""`,
+    @calculatedFrom(""\n"")
+    // trailing space 
+    /// triple
+    char[65535] asx,
+    repeat int8 trueish `{ , }`,
+}
+
+root packet lengthOf {
+}")).
+Eval vm_compute in ("<<<M521>>>" ++ check (runes_of_ascii "root packet tag { }  packet MetaDataX{true 007	]
+// c
+/// triple
+asx  @calculatedFrom( ""a\""b""
+) `say ""hi""`// " ++ [27880; 37322]%N ++ runes_of_ascii "
+,  @tag(4294967296 )
+    char[1//x
+] packetx @calculatedFrom(""a\""b""
+    ) ,
+// " ++ [128512]%N ++ runes_of_ascii " emoji
+// a // b
+@calculatedFrom(""" ++ [233]%N ++ runes_of_ascii "t" ++ [233]%N ++ runes_of_ascii """  ) repeat pack // " ++ [27880; 37322]%N ++ runes_of_ascii "
+,
+    } // c")).
+Eval vm_compute in ("<<<M573>>>" ++ check (runes_of_ascii "root packet tag { }  packet MetaDataX{char[007	]
+// c
+/// triple
+asx  @calculatedFrom( ""a\""b""
+) `say ""hi""`// " ++ [27880; 37322]%N ++ runes_of_ascii "
+,  @tag(4294967296 
+    char[1//x
+] packetx @calculatedFrom(""a\""b""
+    ) ,
+// " ++ [128512]%N ++ runes_of_ascii " emoji
+// a // b
+@calculatedFrom(""" ++ [233]%N ++ runes_of_ascii "t" ++ [233]%N ++ runes_of_ascii """  ) repeat pack // " ++ [27880; 37322]%N ++ runes_of_ascii "
+,
+    } // c")).
+Eval vm_compute in ("<<<M556>>>" ++ check (runes_of_ascii "root packet tag { }  packet MetaDataX{char[007	]
+// c
+/// triple
+asx  @calculatedFrom( ""a\""b""
+) char[// " ++ [27880; 37322]%N ++ runes_of_ascii "
+,  @tag(4294967296 )
+    char[1//x
+] packetx @calculatedFrom(""a\""b""
+    ) ,
+// " ++ [128512]%N ++ runes_of_ascii " emoji
+// a // b
+@calculatedFrom(""" ++ [233]%N ++ runes_of_ascii "t" ++ [233]%N ++ runes_of_ascii """  ) repeat pack // " ++ [27880; 37322]%N ++ runes_of_ascii "
+,
+    } // c")).
+Eval vm_compute in ("<<<M1542>>>" ++ check (runes_of_ascii "
+options
+
+    {StringPrefixLenType = u16;
+
+FixedStringPadChar 
 =
 
-    4294967296 
-As=
-    ""abc"" f32a
-	=' '
-	; len// packet A { u8 x, }
-    = char[] 
-;
-
-    uint8x
-
-    = true 
-}
-")).
-Eval vm_compute in ("<<<M2356>>>" ++ check (runes_of_ascii "// c
-packet x { @lengthOf( metadata ) repeat lengthOf
-,a1{
-trueish	,// c
-repeat//	t
-MetaDataX , } , zchar[ zchar[
-    42	] rootA // `tick` ""quote"" 'q'
-,
-    }
-")).
-Eval vm_compute in ("<<<M34>>>" ++ check (runes_of_ascii "// " ++ [27880; 37322]%N ++ runes_of_ascii "
-root packet chars { @rightPad(
-    //	t
-    )
-    u8x @calculatedFrom( ""a	b"" ) `line1
-line2` ,
+' ' 
+;}	packet
+Party {} 
+packet  Quote
+{ 
 repeat
-tag {
-    repeat options1 f32a
-    `" ++ [28040; 24687; 31867; 22411]%N ++ runes_of_ascii "` , },	}
-")).
-Eval vm_compute in ("<<<M2374>>>" ++ check (runes_of_ascii "// c
-packet x { @lengthOf( metadata ) repeat lengthOf
-10 a1{
-trueish	,// c
-repeat//	t
-MetaDataX , } , zchar[
-    42	] rootA // `tick` ""quote"" 'q'
-,
-    }
-")).
-Eval vm_compute in ("<<<M2110>>>" ++ check (runes_of_ascii "options{
-_x
-= true
-} options
-{ { o	= /// triple
-false
-    ; chars
-= ""\n"" } root packet	Pad
-/// triple
-// packet A { u8 x, }
-{	chars
-    // a // b
-    ,}")).
-Eval vm_compute in ("<<<M2082>>>" ++ check (runes_of_ascii "options _x
-{
-= true
-} options
-{ o	= /// triple
-false
-    ; chars
-= ""\n"" } root packet	Pad
-/// triple
-// packet A { u8 x, }
-{	chars
-    // a // b
-    ,}")).
-Eval vm_compute in ("<<<M2101>>>" ++ check (runes_of_ascii "options{
-_x
-= true
-options }
-{ o	= /// triple
-false
-    ; chars
-= ""\n"" } root packet	Pad
-/// triple
-// packet A { u8 x, }
-{	chars
-    // a // b
-    ,}")).
-Eval vm_compute in ("<<<M2089>>>" ++ check (runes_of_ascii "options{
-_x
- true
-} options
-{ o	= /// triple
-false
-    ; chars
-= ""\n"" } root packet	Pad
-/// triple
-// packet A { u8 x, }
-{	chars
-    // a // b
-    ,}")).
-Eval vm_compute in ("<<<M2378>>>" ++ check (runes_of_ascii "// c
-packet x { @lengthOf( metadata ) repeat lengthOf
-,a1{
-trueish	,// c
-]//	t
-MetaDataX , } , zchar[
-    42	] rootA // `tick` ""quote"" 'q'
-,
-    }
-")).
-Eval vm_compute in ("<<<M2403>>>" ++ check (runes_of_ascii "// c
-packet x { @lengthOf( metadata ) repeat lengthOf
-,a1{
-	,// c
-repeat//	t
-MetaDataX , } , zchar[
-    42	] rootA // `tick` ""quote"" 'q'
-,
-    }
-")).
-Eval vm_compute in ("<<<M868>>>" ++ check (runes_of_ascii "MetaData  tag
-    {char[ 3
-    // trailing space 
-    ]u8x , packetx a1 , } // packet A { u8 x, }
-MetaData chars
-{ i16 uint8x
-    `tab	here` ,}")).
-Eval vm_compute in ("<<<M4179>>>" ++ check (runes_of_ascii "root
-    packet matchKey  { zchar[	3 ] 
-pack 
-@calculatedFrom( ""a	b"" 
-)`doc` ,
-}
-options { }
-MetaData
-    // c
-  	A{
-	int8
+    Party,	repeat
+char[2 ]
 
-msg_type , }
+f1
 
-")).
-Eval vm_compute in ("<<<M4057>>>" ++ check (runes_of_ascii "packet	A {match
-
-    k as
-n 
-{
-    [ 1
-	,
-	22,
-007
-,
-4 , 5 ,66
-,
-
-    7 ,
-8 ,  9
-
-, 10 ,	11 ,
-    12
-]
-:	B
-    2 :
-	C
-
-} ,}
-")).
-Eval vm_compute in ("<<<M1443>>>" ++ check (runes_of_ascii "
-packet
-    falsey { Header@calculatedFrom(""packet""  ) , char[
-    0123456789 0123456789 ] packetx
-    , } // `tick` ""quote"" 'q'")).
-Eval vm_compute in ("<<<M1413>>>" ++ check (runes_of_ascii "
-packet
-    falsey { Header Header@calculatedFrom(""packet""  ) , char[
-    0123456789 ] packetx
-    , } // `tick` ""quote"" 'q'")).
-Eval vm_compute in ("<<<M1142>>>" ++ check (runes_of_ascii "root
-    packet Foo	{@rightPad ( '\x00' ) Header
-    // " ++ [27880; 37322]%N ++ runes_of_ascii "
-    Pad
-`tab	here`,@rightPad  (
-'\x00'
-) zchar[ 1	]x_y_z , }
-")).
-Eval vm_compute in ("<<<M3341>>>" ++ check (runes_of_ascii "root packet matchKey { zchar[ 3 ] pack @calculatedFrom( ""a	b"" ) `doc` , } options
-// c
-{ } MetaData A { int8 msg_type , }")).
-Eval vm_compute in ("<<<M1463>>>" ++ check (runes_of_ascii "
-packet
-    falsey { Header@calculatedFrom(""packet""  ) , char[
-    0123456789 ] packetx
-    , } } // `tick` ""quote"" 'q'")).
-Eval vm_compute in ("<<<M1401>>>" ++ check (runes_of_ascii "
-char[]
-    falsey { Header@calculatedFrom(""packet""  ) , char[
-    0123456789 ] packetx
-    , } // `tick` ""quote"" 'q'")).
-Eval vm_compute in ("<<<M1551>>>" ++ check (runes_of_ascii "packet
-//	t
-// trailing space 
-_x {
-// packet A { u8 x, }
-// c
-char[
-3
-    ] u8x @lengthOf(
-u8x ) , @calculatedFrom(")).
-Eval vm_compute in ("<<<M1486>>>" ++ check (runes_of_ascii "
-packet
-    falsey { Header@calculatedFrom(""packet""  ) , char[
-    0123456789 ] " ++ [21517; 23383]%N ++ runes_of_ascii "
-    , } // `tick` ""quote"" 'q'")).
-Eval vm_compute in ("<<<M1422>>>" ++ check (runes_of_ascii "
-packet
-    falsey { Header@calculatedFrom(  ) , char[
-    0123456789 ] packetx
-    , } // `tick` ""quote"" 'q'")).
-Eval vm_compute in ("<<<M864>>>" ++ check (runes_of_ascii "options	{ T = // packet A { u8 x, }
-true;_x = false	; A
-= ""{,}"" ; leftPad=	zchar[ 0 ] ; trueish=
-1 ;//
-}")).
-Eval vm_compute in ("<<<M4565>>>" ++ check (runes_of_ascii "options {
-    u = uint16
-    i8i8 = i8;
-    string_ = false;
-    asx = true
-    lengthOf = 0123456789;
-}")).
-Eval vm_compute in ("<<<M3601>>>" ++ check (runes_of_ascii "packet FooBar {
-    u8 a,
-}
-packet foo_bar {
-    u16 b,
-}
-root packet R {
-    FooBar,
-    foo_bar,
-}
-")).
-Eval vm_compute in ("<<<M26>>>" ++ check (runes_of_ascii "options // " ++ [27880; 37322]%N ++ runes_of_ascii "
-{Packet = 4294967296
-; i64_  = // c
-""1"" ;	Z9_ = ""abc"" ; options1 =
-""a\\""
-; o=0  ; }")).
-Eval vm_compute in ("<<<M2960>>>" ++ check (runes_of_ascii "packet A {
-  match k as n {
-    [""a"", ""bb"", 007, ""d"", ""e"", 66, ""g"", ""h"", 9] : B
-    2 : C
-  },
-}")).
-Eval vm_compute in ("<<<M998>>>" ++ check (runes_of_ascii "  MetaData stringy { zchar[ 4294967296
-] charz , string// `tick` ""quote"" 'q'
-x_y_z
-    ,  }
-
-")).
-Eval vm_compute in ("<<<M2274>>>" ++ check (runes_of_ascii "options
-{ } options { BodyLength= u16 Header= f64 ; u128 string
-    true
-    ; } // a // b")).
-Eval vm_compute in ("<<<M4440>>>" ++ check (runes_of_ascii "MetaData 	 // c
-  	body {i64 pack
-`it's`	,}
-packet
-
-stringy
+    , }
+	packet	Logon
 	{
-int16  calculatedFrom,	}
+}
+root packet Cancel
+
+    { uint16	x ,
+
+    zchar[	6
+]f1
+
+,	}
 ")).
-Eval vm_compute in ("<<<M3289>>>" ++ check (runes_of_ascii "MetaData float { float64 charz `
-` , } root packet chars // c
-{ @rightPad ( '0' ) Foo , }")).
-Eval vm_compute in ("<<<M3500>>>" ++ check (runes_of_ascii "packet chars { } packet MetaDataX { @tag(
+Eval vm_compute in ("<<<M1442>>>" ++ check (runes_of_ascii "options {
+    // c1
+LittleEndian // c2
+= true
+    // c4
+;
+    // c5
+} // c6
+root // c7a
+  // c7b
+packet
+    // c8
+P { repeat // c11a
+  // c11b
+char
+    // c12
+cs
+    // c13
+, u8 x // c16
+,
+    // c17
+} // c18a
+  // c18b
+")).
+Eval vm_compute in ("<<<M193>>>" ++ check (runes_of_ascii "MetaData
+    Header { }MetaData Logon {// trailing space 
+int32 falsey ,// " ++ [27880; 37322]%N ++ runes_of_ascii "
+packetx
+_x ,
+char[] Logon`two words`
+,
+    matchKey packetx ,
+    u32 u // packet A { u8 x, }
+,	i64 float `it's`
+, }
+")).
+Eval vm_compute in ("<<<M1486>>>" ++ check (runes_of_ascii "// top
+root // c0
+packet // c1
+P // c2a
+  // c2b
+{ u8 // c4
+s_u8 // c5
+, // c6a
+  // c6b
+repeat // c7a
+  // c7b
+u8 r_u8
+    // c9
+, // c10a
+  // c10b
+u16 b_len , } // c14a
+  // c14b
+")).
+Eval vm_compute in ("<<<M717>>>" ++ check (runes_of_ascii "root packet len // trailing space 
+{
+// " ++ [27880; 37322]%N ++ runes_of_ascii "
+//	t
+char[10
+] metadata	@lengthOf( o ) `crlf
+line`,
+    @rightPad
+( ' '
+match string
+    Header @calculatedFrom( ""a\\""
+    ), }
+")).
+Eval vm_compute in ("<<<M465>>>" ++ check (runes_of_ascii "packet
+    // `tick` ""quote"" 'q'
+    crc
+// packet A { u8 x, }
+//	t
+{
+u32 a1 ,
+    // trailing space 
+    roots
+charz /`/
+`two words`,	}
+    MetaData int {
+} /// triple")).
+Eval vm_compute in ("<<<M680>>>" ++ check (runes_of_ascii "root packet len // trailing space 
+{
+// " ++ [27880; 37322]%N ++ runes_of_ascii "
+//	t
+char[10
+] metadata	@lengthOf( o ) ,`crlf
+line`
+    @rightPad
+( ' '
+) string
+    Header @calculatedFrom( ""a\\""
+    ), }
+")).
+Eval vm_compute in ("<<<M2064>>>" ++ check (runes_of_ascii "  root packet
+matchKey
+
+    {
+zchar[ 3  ]
+pack
+
+@calculatedFrom( ""a	b""
+    )
+`doc`
+,
+} 
+
+    // c
+options
+{ }MetaData
+    A
+
+    {
+int8
+
+    msg_type
+, 
+}
+")).
+Eval vm_compute in ("<<<M318>>>" ++ check (runes_of_ascii "
+MetaData roots {
+As  asx , char[1 ] roots
+,
+    // c
+    char[
+    007]
+    matchKey ,/// triple
+zchar[ 1	] len ,x_y_z
+// trailing space 
+/// triple
+u128 , }")).
+Eval vm_compute in ("<<<M448>>>" ++ check (runes_of_ascii "packet
+    // `tick` ""quote"" 'q'
+    crc
+// packet A { u8 x, }
+//	t
+{
+u32 a1 ,
+    // trailing space 
+    roots
+charz //
+`two words`,	}
+    MetaData")).
+Eval vm_compute in ("<<<M2121>>>" ++ check (runes_of_ascii "packet A {
+    match k as n {
+        [
+            1, 22, ""c c"", 4, 5,
+            ""f"", 7, 8, ""i"", 10
+        ] : B,
+        2 : C,
+    },
+}")).
+Eval vm_compute in ("<<<M1967>>>" ++ check (runes_of_ascii "packet A {
+    match k as n {
+        [
+            1, 22, 007, 4, 5,
+            66, 7, 8, 9
+        ] : B,
+        2 : C,
+    },
+}")).
+Eval vm_compute in ("<<<M1667>>>" ++ check (runes_of_ascii "packet A {
+    Inner {
+        u8 x `a
+        b`,
+        Deep {
+            u8 y `a
+            b`,
+        },
+    },
+}")).
+Eval vm_compute in ("<<<M1244>>>" ++ check (runes_of_ascii "root packet matchKey { zchar[ 3 ] pack @calculatedFrom( ""a	b"" )
 // c
-42 ) i16 string_ , repeat x `say ""hi""` , }")).
-Eval vm_compute in ("<<<M2272>>>" ++ check (runes_of_ascii "options
-{ } options { BodyLength= u16 Header= f64 ; u128 = =
-    true
-    ; } // a // b")).
-Eval vm_compute in ("<<<M2929>>>" ++ check (runes_of_ascii "packet A {
+`doc` , } options { } MetaData A { int8 msg_type , }")).
+Eval vm_compute in ("<<<M1845>>>" ++ check (runes_of_ascii "
+
+  packet
+
+A {  match k as
+    n {  [ ""a""
+    ,	""bb""
+, 007
+    ,
+""d"",	""e""	,
+66 ,
+""g""]:
+
+    B,
+    2	:
+C
+}  ,
+}
+
+")).
+Eval vm_compute in ("<<<M1745>>>" ++ check (runes_of_ascii "
+packet  chars {
+    }packet 
+MetaDataX{  @tag(
+// c
+  42
+    )
+	i16 string_,
+repeat x
+	`say ""hi""` ,
+
+    } ")).
+Eval vm_compute in ("<<<M2>>>" ++ check (runes_of_ascii "packet i8i8
+    {
+char[
+1
+] f32a@calculatedFrom(//	t
+""\n"" )
+    // packet A { u8 x, }
+    , repeat charz,}
+")).
+Eval vm_compute in ("<<<M1656>>>" ++ check (runes_of_ascii "packet metadata {
+    Logon {
+        A `" ++ [28040; 24687; 31867; 22411]%N ++ runes_of_ascii "`,
+        tag o,
+    },
+    zchar len `// not a comment`,
+}")).
+Eval vm_compute in ("<<<M863>>>" ++ check (runes_of_ascii "packet A {
   match k as n {
-    [""a"", 22, ""c c"", 4, ""e"", 66, ""g""] : B,
+    [""a"", ""bb"", ""c c"", ""d"", ""e"", ""f"", ""g"", ""h"", ""i""] : B
     2 : C
   },
 }")).
-Eval vm_compute in ("<<<M2278>>>" ++ check (runes_of_ascii "options
-{ } options { BodyLength= u16 Header= f64 ; u128 =
-    ;
-    true } // a // b")).
-Eval vm_compute in ("<<<M3240>>>" ++ check (runes_of_ascii "packet metadata { Logon { A `" ++ [28040; 24687; 31867; 22411]%N ++ runes_of_ascii "` , tag o , } , zchar
-// c
-len `// not a comment` , }")).
-Eval vm_compute in ("<<<M3431>>>" ++ check (runes_of_ascii "packet o // c
-{ repeat Logon uint8x , } options { asx = zchar[ 3 ] stringy = '\x00' }")).
-Eval vm_compute in ("<<<M3463>>>" ++ check (runes_of_ascii "packet o { repeat Logon uint8x , } options { asx = zchar[ 3 ] stringy = '\x00' // c
-}")).
-Eval vm_compute in ("<<<M2921>>>" ++ check (runes_of_ascii "packet A {
+Eval vm_compute in ("<<<M895>>>" ++ check (runes_of_ascii "packet A {
   match k as n {
-    [""a"", ""bb"", 007, ""d"", ""e"", 66] : B
+    [1, 22, ""c c"", 4, 5, ""f"", 7, 8, ""i"", 10, 11] : B
     2 : C
   },
 }")).
-Eval vm_compute in ("<<<M3406>>>" ++ check (runes_of_ascii "MetaData body { i64 pack `it's` , // c
-} packet stringy { int16 calculatedFrom , }")).
-Eval vm_compute in ("<<<M3589>>>" ++ check (runes_of_ascii "packet orderItem {
+Eval vm_compute in ("<<<M858>>>" ++ check (runes_of_ascii "packet A {
+  match k as n {
+    [""a"", ""bb"", 007, ""d"", ""e"", 66, ""g"", ""h""] : B
+    2 : C
+  },
+}")).
+Eval vm_compute in ("<<<M2049>>>" ++ check (runes_of_ascii "packet A {
+    B b `a
+        b`,
+    B `a
+        b`,
+    repeat B bs `a
+        b`,
+}")).
+Eval vm_compute in ("<<<M1203>>>" ++ check (runes_of_ascii "MetaData float { float64 charz `
+` , } root packet chars {
+// c
+@rightPad ( '0' ) Foo , }")).
+Eval vm_compute in ("<<<M1414>>>" ++ check (runes_of_ascii "packet chars { } packet MetaDataX { @tag( 42 ) // c
+i16 string_ , repeat x `say ""hi""` , }")).
+Eval vm_compute in ("<<<M1123>>>" ++ check (runes_of_ascii "
+// c
+packet metadata { Logon { A `" ++ [28040; 24687; 31867; 22411]%N ++ runes_of_ascii "` , tag o , } , zchar len `// not a comment` , }")).
+Eval vm_compute in ("<<<M1144>>>" ++ check (runes_of_ascii "packet metadata { Logon { A `" ++ [28040; 24687; 31867; 22411]%N ++ runes_of_ascii "` , tag o , // c
+} , zchar len `// not a comment` , }")).
+Eval vm_compute in ("<<<M1349>>>" ++ check (runes_of_ascii "packet o { repeat Logon
+// c
+uint8x , } options { asx = zchar[ 3 ] stringy = '\x00' }")).
+Eval vm_compute in ("<<<M831>>>" ++ check (runes_of_ascii "packet A {
+  match k as n {
+    [""a"", ""bb"", 007, ""d"", ""e"", 66] : B,
+    2 : C
+  },
+}")).
+Eval vm_compute in ("<<<M1310>>>" ++ check (runes_of_ascii "MetaData body {
+// c
+i64 pack `it's` , } packet stringy { int16 calculatedFrom , }")).
+Eval vm_compute in ("<<<M1500>>>" ++ check (runes_of_ascii "packet orderItem {
     u8 a,
 }
 root packet newOrder {
@@ -2550,158 +1186,87 @@ root packet newOrder {
     u8 x,
 }
 ")).
-Eval vm_compute in ("<<<M3863>>>" ++ check (runes_of_ascii "packet 
-
-//	t
-	lengthOf
-{
-@tag(
-3
-	)	@lengthOf( lengthOf ) u64 options1,  }
-")).
-Eval vm_compute in ("<<<M885>>>" ++ check (runes_of_ascii "
-packet msg_type { @tag(// " ++ [27880; 37322]%N ++ runes_of_ascii "
-00 //	t
-)
-zchar[ 0123456789 ] //	t
-rootA	, }")).
-Eval vm_compute in ("<<<M451>>>" ++ check (runes_of_ascii "options{ } root
+Eval vm_compute in ("<<<M1859>>>" ++ check (runes_of_ascii "
 packet
-    packetx {
-// `tick` ""quote"" 'q'
-// " ++ [128512]%N ++ runes_of_ascii " emoji
-}
+    x
+	{ 
+@rightPad
+	(
+    )// c
+    repeat  roots  Logon
+`doc` , }
 ")).
-Eval vm_compute in ("<<<M1919>>>" ++ check (runes_of_ascii "MetaData
-    u { }  options {
+Eval vm_compute in ("<<<M2003>>>" ++ check (runes_of_ascii "
+packet  x
+{
 // c
-// @lengthOf(
-float = int8 ;rootA =")).
-Eval vm_compute in ("<<<M4595>>>" ++ check (runes_of_ascii "
+  @rightPad
+( )repeat
+    roots
+Logon
+    `doc`
+	,}")).
+Eval vm_compute in ("<<<M1863>>>" ++ check (runes_of_ascii "packet crc {
+    u32 T @lengthOf(x) `crlf
+        line`,// a // b
+}")).
+Eval vm_compute in ("<<<M2021>>>" ++ check (runes_of_ascii "
 
   root
-    packet 
-P{ hdr	{
-
-    u8
-	a
-
-    ,
-
-} ,
-
-u8 x
-,}
-
-")).
-Eval vm_compute in ("<<<M3708>>>" ++ check (runes_of_ascii "root
-
     packet
-    u128 {
-    chars
+P {
+    hdr	{	u8
+	a
+    ,
+	}  , u8
 
-    `it's`
-,	} 
-
-// c
+x	, }
 ")).
-Eval vm_compute in ("<<<M103>>>" ++ check (runes_of_ascii "
-packet float {
-} MetaData As { char[]
-    trueish , }
-// " ++ [27880; 37322]%N ++ runes_of_ascii "
-")).
-Eval vm_compute in ("<<<M3942>>>" ++ check (runes_of_ascii "packet
-
-// a // b
-matchKey 
-{ 
-@tag(//
-
-0
-    )repeat
-u
-,
+Eval vm_compute in ("<<<M190>>>" ++ check (runes_of_ascii "MetaData zchar
+    {  i32 Z9_ `say ""hi""` ,
+    } // a // b")).
+Eval vm_compute in ("<<<M768>>>" ++ check (runes_of_ascii "packet A {
+  match k as n {
+    [1] : B,
+    2 : C
+  },
 }")).
-Eval vm_compute in ("<<<M3365>>>" ++ check (runes_of_ascii "packet // c
-x { @rightPad ( ) repeat roots Logon `doc` , }")).
-Eval vm_compute in ("<<<M3172>>>" ++ check (runes_of_ascii "packet A { @tag(1) // a
- @leftPad('0') // b
- char[4] x, }")).
-Eval vm_compute in ("<<<M165>>>" ++ check (runes_of_ascii "packet x
-{ @lengthOf( x_y_z )
-BodyLength tag // c
-,}
-")).
-Eval vm_compute in ("<<<M3169>>>" ++ check (runes_of_ascii "packet A { B { // a
+Eval vm_compute in ("<<<M1080>>>" ++ check (runes_of_ascii "packet A { B { // a
  u8 x, // b
  } // c
  , // d
  }")).
-Eval vm_compute in ("<<<M3011>>>" ++ check (runes_of_ascii "MetaData M {
-    u8 x `a
-b`,
-    T t `a
-b`,
+Eval vm_compute in ("<<<M2019>>>" ++ check (runes_of_ascii "root
+    packet
+
+    pack 
+    // c
+    {	}")).
+Eval vm_compute in ("<<<M652>>>" ++ check (runes_of_ascii "root packet tag { }  packet MetaDataX{ch")).
+Eval vm_compute in ("<<<M764>>>" ++ check ([65533]%N ++ runes_of_ascii "X" ++ [387; 31]%N ++ runes_of_ascii "+" ++ [65533; 65533; 404; 65533; 65533]%N ++ runes_of_ascii "9C" ++ [3; 65533]%N ++ runes_of_ascii "D" ++ [65533; 65533; 65533; 65533; 11; 65533]%N ++ runes_of_ascii "&\" ++ [65533]%N ++ runes_of_ascii "1" ++ [17; 65533; 65533; 65533; 65533; 23; 7]%N ++ runes_of_ascii "_" ++ [4; 65533; 65533; 24]%N)).
+Eval vm_compute in ("<<<M21>>>" ++ check (runes_of_ascii "//	t
+packet Packet{ u64 tag
+,}
+")).
+Eval vm_compute in ("<<<M1023>>>" ++ check (runes_of_ascii "packet A {
+ u8 x `d" ++ [8287]%N ++ runes_of_ascii "`, // c" ++ [8287]%N ++ runes_of_ascii "
 }")).
-Eval vm_compute in ("<<<M2836>>>" ++ check (runes_of_ascii "u16 options zchar[ char[] match i32 42 repeat")).
-Eval vm_compute in ("<<<M728>>>" ++ check (runes_of_ascii "options { options1 = float64
-    ; } // " ++ [27880; 37322]%N)).
-Eval vm_compute in ("<<<M2800>>>" ++ check (runes_of_ascii "packet int32 options i32 MetaData packet")).
-Eval vm_compute in ("<<<M3958>>>" ++ check (runes_of_ascii "MetaData packetx {
-    zchar[7] u128,
+Eval vm_compute in ("<<<M93>>>" ++ check (runes_of_ascii "packet repeatCount{	} // c")).
+Eval vm_compute in ("<<<M2001>>>" ++ check (runes_of_ascii "// c" ++ [65279]%N ++ runes_of_ascii "
+packet
+
+A
+
+{}
+")).
+Eval vm_compute in ("<<<M971>>>" ++ check (runes_of_ascii "packet A {
+}
+// c ")).
+Eval vm_compute in ("<<<M1052>>>" ++ check (runes_of_ascii "// c" ++ [6158]%N ++ runes_of_ascii "
+packet A {
 }")).
-Eval vm_compute in ("<<<M243>>>" ++ check (runes_of_ascii "// c
-root packet
-calculatedFrom { }
-")).
-Eval vm_compute in ("<<<M2695>>>" ++ check (runes_of_ascii "@&%t""ZYSa""[h-SeOaEg6\yrr.ozSs#Cy5AO")).
-Eval vm_compute in ("<<<M931>>>" ++ check (runes_of_ascii "root packet stringy {
-_x Pad , }
-")).
-Eval vm_compute in ("<<<M3568>>>" ++ check (runes_of_ascii "root packet P {
-    string s,
-}
-")).
-Eval vm_compute in ("<<<M2760>>>" ++ check (runes_of_ascii "RhCe{*)SOkbY3jNAmCPh}|2~2jWOF^")).
-Eval vm_compute in ("<<<M2814>>>" ++ check (runes_of_ascii " y!?qy-V\MAcTKR_L,7(1t1T$HN/[")).
-Eval vm_compute in ("<<<M2699>>>" ++ check (runes_of_ascii "9fg42cfm:PE.""_7ZnAcePs7rsPF")).
-Eval vm_compute in ("<<<M3855>>>" ++ check (runes_of_ascii "
-
-  packet
-
-x {
-
-    }
-")).
-Eval vm_compute in ("<<<M899>>>" ++ check (runes_of_ascii "
-MetaData Pad
-    {  }
-")).
-Eval vm_compute in ("<<<M171>>>" ++ check (runes_of_ascii "packet options1 {  }
+Eval vm_compute in ("<<<M766>>>" ++ check (runes_of_ascii "u16 char[ @tag(")).
+Eval vm_compute in ("<<<M746>>>" ++ check (runes_of_ascii "[ { 10")).
+Eval vm_compute in ("<<<M247>>>" ++ check (runes_of_ascii "
 
 ")).
-Eval vm_compute in ("<<<M733>>>" ++ check (runes_of_ascii "packet  Z9_{
-    }
-")).
-Eval vm_compute in ("<<<M2573>>>" ++ check (runes_of_ascii "packet A { x y z, }")).
-Eval vm_compute in ("<<<M2662>>>" ++ check (runes_of_ascii "options { a = 1, }")).
-Eval vm_compute in ("<<<M3135>>>" ++ check (runes_of_ascii "packet A {
-}
-// c" ++ [65279]%N)).
-Eval vm_compute in ("<<<M3098>>>" ++ check (runes_of_ascii "packet A {
-}// c" ++ [8233]%N)).
-Eval vm_compute in ("<<<M1380>>>" ++ check (runes_of_ascii "packet x  { }
-")).
-Eval vm_compute in ("<<<M248>>>" ++ check (runes_of_ascii "
-options
-{}")).
-Eval vm_compute in ("<<<M2629>>>" ++ check (runes_of_ascii "packet { }")).
-Eval vm_compute in ("<<<M723>>>" ++ check (runes_of_ascii "//x
- 	 ")).
-Eval vm_compute in ("<<<M2691>>>" ++ check (runes_of_ascii "MLpc5K")).
-Eval vm_compute in ("<<<M3064>>>" ++ check (runes_of_ascii "// c" ++ [12288]%N)).
-Eval vm_compute in ("<<<M2517>>>" ++ check (runes_of_ascii """//""")).
-Eval vm_compute in ("<<<M2530>>>" ++ check (runes_of_ascii "1.5")).
-Eval vm_compute in ("<<<M2531>>>" ++ check (runes_of_ascii "-1")).
-Eval vm_compute in ("<<<M2852>>>" ++ check ([31]%N)).
